@@ -8,6 +8,13 @@ use sophia_api::term::{BnodeId, LanguageTag, SimpleTerm, VarName};
 use sophia_iri::{Iri, IriRef};
 use std::panic::{catch_unwind, AssertUnwindSafe};
 use verif_harness::*;
+// ---- round 4 (entry points, consumption modes, polyglot inputs, Unicode at every position class) ----
+use sophia_api::quad::{Quad, Spog};
+use sophia_api::source::{QuadSource, Source, StreamError, TripleSource};
+use sophia_api::triple::Triple;
+use sophia_jsonld::{JsonLdError, JsonLdOptions, JsonLdParser, RdfTerm};
+use sophia_rio::model::Trusted;
+use std::io::{BufRead, BufReader, Cursor, Read};
 
 #[derive(Clone, Copy, Debug, PartialEq)]
 enum Fmt { Nt, Nq, Turtle, Trig, Gnq, Gtrig, Xml, JsonLd }
@@ -84,7 +91,976 @@ fn deep_doc(f: Fmt, depth: usize) -> Vec<u8> {
     }
 }
 
-thread_local! { static LAST_PANIC: std::cell::RefCell<String> = std::cell::RefCell::new(String::new()); }
+// ======================================================================================================
+// Round 4: every public entry point x every way of consuming the source, on polyglot / wrapped documents
+// and on texts carrying "difficult" Unicode at every position class.
+// ======================================================================================================
+
+/// What one run of one parser through one entry point gave.
+#[derive(Default, Clone, Debug)]
+struct Outcome {
+    n: usize,
+    bad: Vec<String>,
+    /// first error reported by the source (Display text, shortened)
+    err: Option<String>,
+    /// the sink's own error came back as StreamError::SinkError
+    sink: bool,
+    /// canonical text of every statement delivered before the first error
+    stmts: Vec<String>,
+    /// the entry point does not apply to this input (e.g. parse_str on invalid UTF-8)
+    skipped: bool,
+    /// JSON-LD only: the error is JsonLdError::Utf8
+    utf8_error: bool,
+    /// the reader's injected failure was actually reached
+    io_failed: bool,
+    /// Steps only: what further pulls after the first error gave (statistics, not part of the property)
+    after_error: Option<&'static str>,
+    /// Gtrig only: a raw IRI of a yielded statement that is not a valid IRI reference (recorded before any accessor runs)
+    raw_invalid_iri: Option<String>,
+}
+
+fn term_text<T: Term>(t: T) -> String { let st: SimpleTerm = t.into_term(); format!("{st:?}") }
+fn short_err<E: std::fmt::Display>(e: E) -> String { format!("{e}").replace('\n', " ").chars().take(120).collect() }
+
+/// The accessors of a yielded term answer consistently with its kind, the conversions downstream code performs
+/// unchecked agree with the term, and the validated wrappers built from its text behave like that text.
+fn consistency<T: Term>(t: T, out: &mut Vec<String>) {
+    use sophia_api::term::TermKind::*;
+    use std::cmp::Ordering::Equal;
+    let k = t.kind();
+    let flags = [t.iri().is_some(), t.bnode_id().is_some(), t.lexical_form().is_some(), t.datatype().is_some(), t.variable().is_some(), t.triple().is_some()];
+    let want = [k == Iri, k == BlankNode, k == Literal, k == Literal, k == Variable, k == Triple];
+    if flags != want { out.push(format!("accessors inconsistent with kind {k:?}: is_some of iri/bnode_id/lexical_form/datatype/variable/triple = {flags:?}")); return; }
+    if t.language_tag().is_some() && k != Literal { out.push(format!("language_tag() is Some on a term of kind {k:?}")); }
+    let preds = [t.is_iri(), t.is_blank_node(), t.is_literal(), t.is_variable(), t.is_triple()];
+    if preds != [k == Iri, k == BlankNode, k == Literal, k == Variable, k == Triple] || t.is_atom() != (k != Triple) { out.push(format!("is_iri/is_blank_node/is_literal/is_variable/is_triple/is_atom inconsistent with kind {k:?}")); }
+    let st: SimpleTerm = t.borrow_term().into_term();
+    if !Term::eq(&st, t.borrow_term()) || !Term::eq(&t.borrow_term(), st.borrow_term()) || Term::cmp(&st, t.borrow_term()) != Equal || Term::cmp(&t.borrow_term(), st.borrow_term()) != Equal {
+        out.push(format!("the term differs (Term::eq / Term::cmp) from its own SimpleTerm copy {st:?}"));
+    }
+    if st.kind() != k { out.push(format!("SimpleTerm copy has kind {:?}, the term {k:?}", st.kind())); }
+    match k {
+        Iri => {
+            let i = t.iri().unwrap(); let s: &str = i.as_str();
+            if IriRef::new(s).is_ok() {
+                let a = IriRef::new_unchecked(s.to_string()); let b = IriRef::new_unchecked(s);
+                let ok = a == b && b == a && a.partial_cmp(&a.clone()) == Some(Equal) && b.partial_cmp(&b.clone()) == Some(Equal) && Ord::cmp(&a, &a.clone()) == Equal && Ord::cmp(&b, &b) == Equal
+                    && **a == *s && <IriRef<String> as AsRef<str>>::as_ref(&a) == s && <IriRef<String> as std::borrow::Borrow<str>>::borrow(&a) == s
+                    && <IriRef<String> as AsRef<String>>::as_ref(&a) == s && <IriRef<String> as std::borrow::Borrow<String>>::borrow(&a) == s
+                    && a == *s && *s == a && a.partial_cmp(s) == Some(Equal) && s.partial_cmp(&a) == Some(Equal) && a.as_ref().as_str() == s && a.clone().unwrap() == s;
+                if !ok { out.push(format!("IriRef wrapper built from the yielded IRI {s:?} does not behave like its text (Deref/AsRef/Borrow/Eq/Ord)")); }
+                // the split validators used by namespaces agree with the whole-string validator
+                let mid = { let mut m = s.len() / 2; while !s.is_char_boundary(m) { m -= 1; } m };
+                if !sophia_iri::is_valid_suffixed_iri_ref(&s[..mid], Some(&s[mid..])) || !sophia_iri::is_valid_suffixed_iri_ref(s, None) || !sophia_iri::is_valid_iri_ref(s) {
+                    out.push(format!("is_valid_suffixed_iri_ref / is_valid_iri_ref reject the yielded IRI {s:?} which IriRef::new accepts"));
+                }
+                let abs = sophia_iri::Iri::new(s).is_ok();
+                if sophia_iri::is_absolute_iri_ref(s) != abs || sophia_iri::is_relative_iri_ref(s) == abs {
+                    out.push(format!("is_absolute_iri_ref / is_relative_iri_ref disagree with Iri::new on the yielded IRI {s:?}"));
+                }
+            }
+        }
+        BlankNode => {
+            let b = t.bnode_id().unwrap(); let s = b.as_str();
+            if BnodeId::new(s).is_ok() { let w = BnodeId::new_unchecked(s); if w.as_str() != s || !Term::eq(&w, t.borrow_term()) { out.push(format!("BnodeId built from the yielded label {s:?} is not equal to the term")); } }
+        }
+        Variable => {
+            let v = t.variable().unwrap(); let s = v.as_str();
+            if VarName::new(s).is_ok() { let w = VarName::new_unchecked(s); if w.as_str() != s || !Term::eq(&w, t.borrow_term()) { out.push(format!("VarName built from the yielded name {s:?} is not equal to the term")); } }
+        }
+        Literal => {
+            let lex = t.lexical_form().unwrap();
+            if let Some(tag) = t.language_tag() {
+                let s = tag.as_str();
+                if LanguageTag::new(s).is_ok() {
+                    let (up, lo) = (s.to_ascii_uppercase(), s.to_ascii_lowercase());
+                    let (a, u, l) = (LanguageTag::new_unchecked(s), LanguageTag::new_unchecked(up.as_str()), LanguageTag::new_unchecked(lo.as_str()));
+                    if !(a == u && u == l && a.cmp(&u) == Equal && l.cmp(&u) == Equal && &**a == s && a.unwrap() == s && LanguageTag::new_unchecked_const("en-US") == LanguageTag::new_unchecked("EN-us")) { out.push(format!("LanguageTag {s:?}: comparison is not ASCII-case-insensitive or Deref differs")); }
+                    let built: SimpleTerm = &*lex * u;
+                    if !Term::eq(&built, t.borrow_term()) { out.push(format!("lexical form * language tag {s:?} (upper-cased) is not Term::eq to the yielded literal")); }
+                    let dt = t.datatype().unwrap();
+                    if dt.as_str() != "http://www.w3.org/1999/02/22-rdf-syntax-ns#langString" { out.push(format!("language-tagged literal with datatype {:?}", dt.as_str())); }
+                }
+            }
+        }
+        Triple => { let (n_atoms, n_const) = (t.atoms().count(), t.constituents().count()); if n_atoms < 3 || n_const < n_atoms + 1 { out.push(format!("quoted triple with {n_atoms} atoms and {n_const} constituents")); } }
+    }
+}
+
+fn check_term<T: Term>(t: T, g: bool, bad: &mut Vec<String>) { let before = bad.len(); validate(t.borrow_term(), g, bad); if bad.len() == before { consistency(t, bad); } }
+
+/// statement-level record: validate every term and remember the canonical text
+fn see<T: Term>(spo: &[T; 3], gname: Option<&T>, g: bool, out: &mut Outcome) {
+    let mut line = String::new();
+    for x in spo.iter() { check_term(x.borrow_term(), g, &mut out.bad); line.push_str(&term_text(x.borrow_term())); line.push(' '); }
+    if let Some(gn) = gname { check_term(gn.borrow_term(), g, &mut out.bad); line.push_str(&term_text(gn.borrow_term())); }
+    out.stmts.push(line); out.n += 1;
+}
+
+/// Representation-specific checks: the component wrappers a consumer can build from the public fields.
+trait Extra { fn extra(&self, g: bool, bad: &mut Vec<String>); }
+fn same_text<A: Term, B: Term>(what: &str, a: A, b: B, bad: &mut Vec<String>) { let (x, y) = (term_text(a), term_text(b)); if x != y { bad.push(format!("{what}: component wrapper reads {x} but the term reads {y}")); } }
+fn rio_named(n: rio_api::model::NamedNode, g: bool, bad: &mut Vec<String>) {
+    let w = Trusted(n); check_term(w, g, bad);
+    if w.kind() != sophia_api::term::TermKind::Iri || w.iri().map(|i| i.as_str() != n.iri).unwrap_or(true) || w.borrow_term().iri().is_none() { bad.push(format!("Trusted<NamedNode> of {:?} has wrong kind/iri", n.iri)); }
+}
+fn rio_blank(b: rio_api::model::BlankNode, g: bool, bad: &mut Vec<String>) {
+    let w = Trusted(b); check_term(w, g, bad);
+    if w.kind() != sophia_api::term::TermKind::BlankNode || w.bnode_id().map(|i| i.as_str() != b.id).unwrap_or(true) || w.borrow_term().bnode_id().is_none() { bad.push(format!("Trusted<BlankNode> of {:?} has wrong kind/bnode_id", b.id)); }
+}
+fn rio_literal(l: rio_api::model::Literal, g: bool, bad: &mut Vec<String>) {
+    use rio_api::model::Literal::*;
+    let w = Trusted(l); check_term(w, g, bad);
+    let (val, lang) = match l { Simple { value } => (value, None), LanguageTaggedString { value, language } => (value, Some(language)), Typed { value, datatype } => { rio_named(datatype, g, bad); (value, None) } };
+    if w.kind() != sophia_api::term::TermKind::Literal || w.lexical_form().map(|x| &*x != val).unwrap_or(true) || w.language_tag().map(|t| t.as_str().to_string()) != lang.map(|x| x.to_string()) || w.datatype().is_none() || w.borrow_term().lexical_form().is_none() {
+        bad.push(format!("Trusted<Literal> of {val:?} has wrong kind/lexical_form/language_tag"));
+    }
+}
+fn rio_var(v: rio_api::model::Variable, g: bool, bad: &mut Vec<String>) {
+    let w = Trusted(v); check_term(w, g, bad);
+    if w.kind() != sophia_api::term::TermKind::Variable || w.variable().map(|i| i.as_str() != v.name).unwrap_or(true) || w.borrow_term().variable().is_none() { bad.push(format!("Trusted<Variable> of {:?} has wrong kind/variable", v.name)); }
+}
+fn rio_term(t: rio_api::model::Term, g: bool, bad: &mut Vec<String>) {
+    use rio_api::model::Term::*;
+    match t { NamedNode(n) => rio_named(n, g, bad), BlankNode(b) => rio_blank(b, g, bad), Literal(l) => rio_literal(l, g, bad), Triple(tr) => rio_triple(*tr, g, bad) }
+}
+fn rio_triple(t: rio_api::model::Triple, g: bool, bad: &mut Vec<String>) {
+    rio_term(t.subject.into(), g, bad); rio_named(t.predicate, g, bad); rio_term(t.object, g, bad);
+    let w = Trusted(t);
+    same_text("Trusted<Triple>.s", Trusted(rio_api::model::Term::from(t.subject)), w.s(), bad);
+    same_text("Trusted<Triple>.o", Trusted(t.object), w.o(), bad);
+}
+fn rio_gterm(t: rio_api::model::GeneralizedTerm, g: bool, bad: &mut Vec<String>) {
+    use rio_api::model::GeneralizedTerm::*;
+    match t { NamedNode(n) => rio_named(n, g, bad), BlankNode(b) => rio_blank(b, g, bad), Literal(l) => rio_literal(l, g, bad), Variable(v) => rio_var(v, g, bad), Triple(tr) => { for x in tr.iter() { rio_gterm(*x, g, bad); } } }
+}
+fn raw_note(i: &str) { if IriRef::new(i).is_err() { RAW_INVALID_IRI.with(|x| { let mut x = x.borrow_mut(); if x.is_none() { *x = Some(i.to_string()); } }); } }
+fn raw_scan_term(t: rio_api::model::Term) {
+    use rio_api::model::Term::*;
+    match t { NamedNode(n) => raw_note(n.iri), Literal(rio_api::model::Literal::Typed { datatype, .. }) => raw_note(datatype.iri), Triple(tr) => raw_scan_triple(*tr), _ => {} }
+}
+fn raw_scan_triple(t: rio_api::model::Triple) { raw_scan_term(t.subject.into()); raw_note(t.predicate.iri); raw_scan_term(t.object); }
+impl Extra for Trusted<rio_api::model::Triple<'_>> { fn extra(&self, g: bool, bad: &mut Vec<String>) { raw_scan_triple(self.0); rio_triple(self.0, g, bad); } }
+impl Extra for Trusted<rio_api::model::Quad<'_>> {
+    fn extra(&self, g: bool, bad: &mut Vec<String>) {
+        raw_scan_term(self.0.subject.into()); raw_note(self.0.predicate.iri); raw_scan_term(self.0.object); if let Some(rio_api::model::GraphName::NamedNode(n)) = self.0.graph_name { raw_note(n.iri); }
+        rio_term(self.0.subject.into(), g, bad); rio_named(self.0.predicate, g, bad); rio_term(self.0.object, g, bad);
+        if let Some(gn) = self.0.graph_name {
+            let w = Trusted(gn); check_term(w, g, bad);
+            let want = match gn { rio_api::model::GraphName::NamedNode(_) => sophia_api::term::TermKind::Iri, rio_api::model::GraphName::BlankNode(_) => sophia_api::term::TermKind::BlankNode };
+            if w.kind() != want || w.borrow_term().kind() != want || (w.iri().is_some() == w.bnode_id().is_some()) { bad.push("Trusted<GraphName> has wrong kind / iri / bnode_id".to_string()); }
+            match gn { rio_api::model::GraphName::NamedNode(n) => rio_named(n, g, bad), rio_api::model::GraphName::BlankNode(b) => rio_blank(b, g, bad) }
+            if let Some(gg) = Quad::g(self) { same_text("Trusted<GraphName>", w, gg, bad); } else { bad.push("graph_name is Some but Quad::g() is None".to_string()); }
+        } else if Quad::g(self).is_some() { bad.push("graph_name is None but Quad::g() is Some".to_string()); }
+    }
+}
+fn raw_scan(t: rio_api::model::GeneralizedTerm) {
+    use rio_api::model::GeneralizedTerm::*;
+    match t { NamedNode(n) => raw_note(n.iri), Literal(rio_api::model::Literal::Typed { datatype, .. }) => raw_note(datatype.iri), Triple(tr) => { for x in tr.iter() { raw_scan(*x); } } _ => {} }
+}
+impl Extra for Trusted<rio_api::model::GeneralizedQuad<'_>> {
+    fn extra(&self, g: bool, bad: &mut Vec<String>) {
+        // the raw strings first (public fields), before any accessor of the wrapper runs
+        raw_scan(self.0.subject); raw_scan(self.0.predicate); raw_scan(self.0.object); if let Some(gn) = self.0.graph_name { raw_scan(gn); }
+        rio_gterm(self.0.subject, g, bad); rio_gterm(self.0.predicate, g, bad); rio_gterm(self.0.object, g, bad);
+        if let Some(gn) = self.0.graph_name { rio_gterm(gn, g, bad); }
+        if self.0.graph_name.is_some() != Quad::g(self).is_some() { bad.push("graph_name and Quad::g() disagree".to_string()); }
+    }
+}
+impl Extra for Spog<RdfTerm> {
+    fn extra(&self, g: bool, bad: &mut Vec<String>) {
+        use rdf_types::vocabulary::{BlankIdVocabulary, BlankIdVocabularyMut, IriVocabulary, IriVocabularyMut, LanguageTagVocabulary, LanguageTagVocabularyMut, LiteralVocabulary, LiteralVocabularyMut};
+        use sophia_jsonld::vocabulary::{ArcIri, ArcVoc};
+        use std::sync::Arc;
+        let (v1, mut v2) = (ArcVoc::default(), ArcVoc::default());
+        let mut one = |t: &RdfTerm| {
+            check_term(t, g, bad);
+            if let Some(i) = t.iri() {
+                if sophia_iri::Iri::new(i.as_str()).is_ok() {
+                    let ai = ArcIri::new_unchecked(Arc::<str>::from(i.as_str()));
+                    same_text("RdfTerm::from(ArcIri)", RdfTerm::from(ai.clone()), t, bad);
+                    if let Some(x) = v1.iri(&ai) { same_text("ArcVoc::get(iri)", v1.get(x).unwrap(), t, bad); same_text("ArcVoc::insert(iri)", v2.insert(x), t, bad); }
+                }
+            }
+            if let Some(b) = t.bnode_id() {
+                let full = format!("_:{}", b.as_str());
+                match rdf_types::BlankId::new(&full) {
+                    Ok(id) => { let bn = v1.get_blank_id(id).unwrap(); check_term(bn.clone(), g, bad); same_text("ArcBnode", bn.clone(), t, bad); same_text("ArcBnode::borrow_term", bn.borrow_term(), t, bad);
+                        if bn.kind() != sophia_api::term::TermKind::BlankNode || bn.borrow_term().as_str() != b.as_str() { bad.push(format!("ArcBnode of {full:?}: wrong kind / borrow_term")); }
+                        if v1.blank_id(&bn).map(|x| x.as_str() != full).unwrap_or(true) { bad.push(format!("ArcVoc::blank_id does not give back {full:?}")); }
+                        same_text("ArcVoc::insert_blank_id", v2.insert_blank_id(id), t, bad); }
+                    Err(_) => bad.push(format!("blank node label {:?} yielded by the JSON-LD parser is not an rdf_types::BlankId", b.as_str())),
+                }
+            }
+            if let (Some(lex), Some(tag)) = (t.lexical_form(), t.language_tag()) {
+                // the vocabulary hands the tag of a yielded literal to the strict `langtag` parser and back
+                let at = sophia_jsonld::vocabulary::ArcTag::new_unchecked(Arc::<str>::from(tag.as_str()));
+                match v1.language_tag(&at) {
+                    Some(lt) => { let t1 = v1.get_language_tag(lt).unwrap(); let t2 = v2.insert_language_tag(v1.language_tag(&at).unwrap());
+                        if t1.as_str() != tag.as_str() || t2.as_str() != tag.as_str() { bad.push(format!("ArcVoc::get_language_tag / insert_language_tag change the tag {:?}", tag.as_str())); }
+                        let lit = rdf_types::Literal::new(lex.to_string(), rdf_types::literal::Type::LangString(t1));
+                        same_text("ArcVoc::get_literal (language-tagged)", RdfTerm::from(rdf_types::Term::Literal(v1.get_literal(&lit).unwrap())), t, bad); }
+                    None => bad.push(format!("ArcVoc::language_tag gives None for the yielded tag {:?}", tag.as_str())),
+                }
+            }
+            if let (Some(lex), Some(dt), None) = (t.lexical_form(), t.datatype(), t.language_tag()) {
+                if sophia_iri::Iri::new(dt.as_str()).is_ok() {
+                    let lit = rdf_types::Literal::new(lex.to_string(), rdf_types::literal::Type::Any(ArcIri::new_unchecked(Arc::<str>::from(dt.as_str()))));
+                    if let Some(l2) = v1.literal(&lit) { same_text("ArcVoc::get_literal", RdfTerm::from(rdf_types::Term::Literal(v1.get_literal(l2).unwrap())), t, bad); same_text("ArcVoc::insert_literal", RdfTerm::from(rdf_types::Term::Literal(v2.insert_literal(l2))), t, bad); }
+                }
+            }
+        };
+        for t in self.0.iter() { one(t); }
+        if let Some(t) = &self.1 { one(t); }
+    }
+}
+
+fn on_triple<T: Triple + Clone + Extra>(t: T, owned: bool, g: bool, out: &mut Outcome) {
+    t.extra(g, &mut out.bad);
+    if owned {
+        let parts = [term_text(t.clone().to_s()), term_text(t.clone().to_p()), term_text(t.clone().to_o())];
+        let brw = [term_text(t.s()), term_text(t.p()), term_text(t.o())];
+        let spo = t.to_spo();
+        let all = [term_text(spo[0].borrow_term()), term_text(spo[1].borrow_term()), term_text(spo[2].borrow_term())];
+        if parts != all || brw != all { out.bad.push(format!("to_s/to_p/to_o = {parts:?}, s/p/o = {brw:?}, to_spo = {all:?}")); }
+        see(&spo, None, g, out);
+    } else if out.n % 2 == 0 { see(&t.spo(), None, g, out); } else { see(&[t.s(), t.p(), t.o()], None, g, out); }
+}
+fn on_quad<Q: Quad + Clone + Extra>(q: Q, owned: bool, g: bool, out: &mut Outcome) {
+    q.extra(g, &mut out.bad);
+    if owned {
+        let parts = [term_text(q.clone().to_s()), term_text(q.clone().to_p()), term_text(q.clone().to_o()), q.clone().to_g().map(term_text).unwrap_or_default()];
+        let brw = [term_text(q.s()), term_text(q.p()), term_text(q.o()), q.g().map(term_text).unwrap_or_default()];
+        let (spo, gn) = q.to_spog();
+        let all = [term_text(spo[0].borrow_term()), term_text(spo[1].borrow_term()), term_text(spo[2].borrow_term()), gn.as_ref().map(|x| term_text(x.borrow_term())).unwrap_or_default()];
+        if parts != all || brw != all { out.bad.push(format!("to_s/to_p/to_o/to_g = {parts:?}, s/p/o/g = {brw:?}, to_spog = {all:?}")); }
+        see(&spo, gn.as_ref(), g, out);
+    } else if out.n % 2 == 0 { let (spo, gn) = q.spog(); see(&spo, gn.as_ref(), g, out); } else { let gn = q.g(); see(&[q.s(), q.p(), q.o()], gn.as_ref(), g, out); }
+}
+
+/// How the source is consumed.
+#[derive(Clone, Copy, Debug, PartialEq)]
+enum Consume {
+    /// for_each_*, borrowed accessors
+    ForEach,
+    /// for_each_*, consuming accessors (to_s, to_p, to_o, to_g, to_spo, to_spog)
+    Owned,
+    /// one for_some_* call at a time; after the first error the source is asked again (tolerant consumer)
+    Steps,
+    /// try_for_each_* with a sink that fails on statement number k+1
+    SinkFail(usize),
+    /// collect_triples / collect_quads into a Vec of SimpleTerm statements
+    Collect,
+}
+const STEP_GUARD: usize = 400_000;
+
+fn drive_t<S>(mut src: S, c: Consume, g: bool, out: &mut Outcome)
+where S: TripleSource, for<'x> <S as Source>::Item<'x>: Clone + Extra {
+    match c {
+        Consume::ForEach | Consume::Owned => { let r = src.for_each_triple(|t| on_triple(t, c == Consume::Owned, g, out)); if let Err(e) = r { out.err = Some(short_err(e)); } }
+        Consume::Steps => {
+            // one call at a time up to the first error (the parse is over then: C08 promises nothing about a source that is
+            // pulled again); a few more pulls are made to reach the code behind them, recorded as statistics only
+            let mut calls = 0usize;
+            loop {
+                calls += 1; if calls > STEP_GUARD { out.bad.push(format!("for_some_triple called {STEP_GUARD} times without the source reporting exhaustion")); break; }
+                let r = src.for_some_triple(|x| on_triple(x, false, g, out));
+                match r { Ok(true) => {} Ok(false) => break, Err(e) => { out.err = Some(short_err(e)); break; } }
+            }
+            if out.err.is_some() {
+                let mut post = Outcome::default();
+                let res = catch_unwind(AssertUnwindSafe(|| { let mut verdict = "ended"; for _ in 0..3 { match src.for_some_triple(|x| on_triple(x, false, g, &mut post)) { Ok(true) => { verdict = "more-statements"; } Ok(false) => break, Err(_) => { if verdict == "ended" { verdict = "error-again"; } } } } verdict }));
+                out.after_error = Some(match res { Err(_) => "panicked", Ok(_) if !post.bad.is_empty() => "invalid-term", Ok(v) => v });
+            }
+        }
+        Consume::SinkFail(k) => {
+            let mut seen = 0usize;
+            let r = src.try_for_each_triple(|t| -> Result<(), MyErr> { on_triple(t, false, g, out); seen += 1; if seen > k { Err(MyErr(seen as u64)) } else { Ok(()) } });
+            match r { Ok(()) => {} Err(StreamError::SourceError(e)) => out.err = Some(short_err(e)), Err(StreamError::SinkError(MyErr(x))) => { if x as usize == k + 1 { out.sink = true } else { out.bad.push(format!("the sink failed with MyErr({}) but the stream reports MyErr({x})", k + 1)); } } }
+        }
+        Consume::Collect => match src.collect_triples::<Vec<[SimpleTerm<'static>; 3]>>() {
+            Ok(v) => { for t in v.iter() { see(t, None, g, out); } }
+            Err(StreamError::SourceError(e)) => out.err = Some(short_err(e)),
+            Err(StreamError::SinkError(e)) => out.bad.push(format!("collecting into a Vec reported a sink error: {e}")),
+        },
+    }
+}
+fn drive_q<S>(mut src: S, c: Consume, g: bool, out: &mut Outcome)
+where S: QuadSource, for<'x> <S as Source>::Item<'x>: Clone + Extra {
+    match c {
+        Consume::ForEach | Consume::Owned => { let r = src.for_each_quad(|q| on_quad(q, c == Consume::Owned, g, out)); if let Err(e) = r { out.err = Some(short_err(e)); } }
+        Consume::Steps => {
+            // one call at a time up to the first error (the parse is over then: C08 promises nothing about a source that is
+            // pulled again); a few more pulls are made to reach the code behind them, recorded as statistics only
+            let mut calls = 0usize;
+            loop {
+                calls += 1; if calls > STEP_GUARD { out.bad.push(format!("for_some_quad called {STEP_GUARD} times without the source reporting exhaustion")); break; }
+                let r = src.for_some_quad(|x| on_quad(x, false, g, out));
+                match r { Ok(true) => {} Ok(false) => break, Err(e) => { out.err = Some(short_err(e)); break; } }
+            }
+            if out.err.is_some() {
+                let mut post = Outcome::default();
+                let res = catch_unwind(AssertUnwindSafe(|| { let mut verdict = "ended"; for _ in 0..3 { match src.for_some_quad(|x| on_quad(x, false, g, &mut post)) { Ok(true) => { verdict = "more-statements"; } Ok(false) => break, Err(_) => { if verdict == "ended" { verdict = "error-again"; } } } } verdict }));
+                out.after_error = Some(match res { Err(_) => "panicked", Ok(_) if !post.bad.is_empty() => "invalid-term", Ok(v) => v });
+            }
+        }
+        Consume::SinkFail(k) => {
+            let mut seen = 0usize;
+            let r = src.try_for_each_quad(|q| -> Result<(), MyErr> { on_quad(q, false, g, out); seen += 1; if seen > k { Err(MyErr(seen as u64)) } else { Ok(()) } });
+            match r { Ok(()) => {} Err(StreamError::SourceError(e)) => out.err = Some(short_err(e)), Err(StreamError::SinkError(MyErr(x))) => { if x as usize == k + 1 { out.sink = true } else { out.bad.push(format!("the sink failed with MyErr({}) but the stream reports MyErr({x})", k + 1)); } } }
+        }
+        Consume::Collect => match src.collect_quads::<Vec<Spog<SimpleTerm<'static>>>>() {
+            Ok(v) => { for (spo, gn) in v.iter() { see(spo, gn.as_ref(), g, out); } }
+            Err(StreamError::SourceError(e)) => out.err = Some(short_err(e)),
+            Err(StreamError::SinkError(e)) => out.bad.push(format!("collecting into a Vec reported a sink error: {e}")),
+        },
+    }
+}
+/// JSON-LD: the same, and the class of the error (the source type is concrete here)
+fn drive_j(src: sophia_jsonld::JsonLdQuadSource, c: Consume, out: &mut Outcome) {
+    if let sophia_jsonld::JsonLdQuadSource::Err(Some(e)) = &src { out.utf8_error = matches!(e, JsonLdError::Utf8(_)); if matches!(e, JsonLdError::IoError(_)) { out.io_failed = true; } }
+    drive_q(src, c, false, out);
+}
+
+/// A BufRead over a slice that hands out at most `chunk` bytes per fill_buf, never crosses `cut`,
+/// and fails with an I/O error once `fail_at` bytes have been consumed.
+struct Feed<'a> { data: &'a [u8], pos: usize, chunk: usize, cut: Option<usize>, fail_at: Option<usize>, failed: std::rc::Rc<std::cell::Cell<bool>> }
+impl<'a> Feed<'a> { fn new(data: &'a [u8], chunk: usize, cut: Option<usize>, fail_at: Option<usize>, failed: std::rc::Rc<std::cell::Cell<bool>>) -> Self { Feed { data, pos: 0, chunk: chunk.max(1), cut, fail_at, failed } } }
+impl BufRead for Feed<'_> {
+    fn fill_buf(&mut self) -> std::io::Result<&[u8]> {
+        let mut end = self.data.len().min(self.pos.saturating_add(self.chunk));
+        if let Some(c) = self.cut { if c > self.pos && c < end { end = c; } }
+        if let Some(f) = self.fail_at { if self.pos >= f { self.failed.set(true); return Err(std::io::Error::new(std::io::ErrorKind::Other, "injected read failure")); } if f < end { end = f; } }
+        Ok(&self.data[self.pos..end])
+    }
+    fn consume(&mut self, n: usize) { self.pos = (self.pos + n).min(self.data.len()); }
+}
+impl Read for Feed<'_> {
+    fn read(&mut self, buf: &mut [u8]) -> std::io::Result<usize> { let n = { let b = self.fill_buf()?; let n = b.len().min(buf.len()); buf[..n].copy_from_slice(&b[..n]); n }; self.consume(n); Ok(n) }
+}
+
+/// The public ways of handing bytes to a parser.
+#[derive(Clone, Copy, Debug, PartialEq)]
+enum Entry {
+    /// parser.parse(&[u8])
+    Slice,
+    /// parser.parse_str(&str)
+    Str,
+    /// module-level parse_str (default parser)
+    ModStr,
+    /// module-level parse_bufread (default parser)
+    ModBuf,
+    /// Parser::default().parse(&[u8])
+    Default,
+    /// parser.parse(BufReader::with_capacity(n, &[u8]))
+    Buffered(usize),
+    /// parser.parse(Cursor<Vec<u8>>)
+    Cursor,
+    /// parser.parse(custom BufRead handing out `chunk` bytes at a time, split at `cut`)
+    Feed { chunk: usize, cut: Option<usize> },
+    /// parser.parse(BufRead failing after k bytes)
+    FailAt(usize),
+    /// JSON-LD: async_parse_str polled by hand
+    Async,
+    /// JSON-LD: new_with_options with a non-default option preset
+    Opts(u8),
+}
+impl Entry { fn uses_default_parser(self) -> bool { matches!(self, Entry::ModStr | Entry::ModBuf | Entry::Default) } fn needs_str(self) -> bool { matches!(self, Entry::Str | Entry::ModStr | Entry::Async) } }
+
+fn poll_to_end<F: std::future::Future>(f: F) -> F::Output {
+    let mut f = std::pin::pin!(f); let w = std::task::Waker::noop(); let mut cx = std::task::Context::from_waker(&w);
+    for _ in 0..1_000_000 { if let std::task::Poll::Ready(x) = f.as_mut().poll(&mut cx) { return x; } std::thread::yield_now(); }
+    panic!("async_parse_str was polled 1000000 times without completing");
+}
+
+const BASE: &str = "http://base.example/dir/doc";
+fn jsonld_opts(k: u8) -> JsonLdOptions<sophia_jsonld::loader_factory::DefaultLoaderFactory<sophia_jsonld::loader::NoLoader>> {
+    use sophia_jsonld::{Policy, ProcessingMode, RdfDirection};
+    let o = JsonLdOptions::new();
+    match k {
+        0 => o.with_processing_mode(ProcessingMode::JsonLd1_0),
+        1 => o.with_rdf_direction(RdfDirection::I18nDatatype),
+        2 => o.with_rdf_direction(RdfDirection::CompoundLiteral).with_ordered(true),
+        3 => o.with_produce_generalized_rdf(true),
+        4 => o.with_expansion_policy(Policy::Strictest).with_base(Iri::new_unchecked(std::sync::Arc::from("http://base.example/İ/K?ﬁ#ẞ"))),
+        5 => o.with_expansion_policy(Policy::Relaxed).with_use_native_types(true).with_use_rdf_type(true),
+        6 => o.try_with_expand_context("{\"@context\": {\"@vocab\": \"http://vocab.example/İ#\", \"@language\": \"tr\"}}").unwrap_or_else(|_| JsonLdOptions::new()),
+        _ => o.with_no_base(),
+    }
+}
+
+/// Run parser `f` (with or without a base IRI) on `data` through entry point `e`, consuming with `c`.
+fn parse_with(f: Fmt, base: bool, data: &[u8], e: Entry, c: Consume) -> Outcome {
+    let mut out = Outcome::default();
+    let g = f.generalized();
+    let b: Option<Iri<String>> = if base { Some(Iri::new_unchecked(BASE.to_string())) } else { None };
+    let text = std::str::from_utf8(data).ok();
+    if e.needs_str() && text.is_none() { out.skipped = true; return out; }
+    let failed = std::rc::Rc::new(std::cell::Cell::new(false));
+    macro_rules! entries {
+        ($drive:ident, $p:expr, $dflt:expr, $m:path) => {{
+            use $m as m;
+            match e {
+                Entry::Slice => $drive($p.parse(data), c, g, &mut out),
+                Entry::Str => $drive($p.parse_str(text.unwrap()), c, g, &mut out),
+                Entry::ModStr => $drive(m::parse_str(text.unwrap()), c, g, &mut out),
+                Entry::ModBuf => $drive(m::parse_bufread(data), c, g, &mut out),
+                Entry::Default => $drive($dflt.parse(data), c, g, &mut out),
+                Entry::Buffered(n) => $drive($p.parse(BufReader::with_capacity(n.max(1), data)), c, g, &mut out),
+                Entry::Cursor => $drive($p.parse(Cursor::new(data.to_vec())), c, g, &mut out),
+                Entry::Feed { chunk, cut } => $drive($p.parse(Feed::new(data, chunk, cut, None, failed.clone())), c, g, &mut out),
+                Entry::FailAt(k) => $drive($p.parse(Feed::new(data, usize::MAX, None, Some(k), failed.clone())), c, g, &mut out),
+                Entry::Async | Entry::Opts(_) => out.skipped = true,
+            }
+        }};
+    }
+    use sophia_turtle::parser::{gnq, gtrig, nq, nt, trig, turtle};
+    match f {
+        Fmt::Nt => entries!(drive_t, nt::NTriplesParser {}, nt::NTriplesParser::default(), sophia_turtle::parser::nt),
+        Fmt::Nq => entries!(drive_q, nq::NQuadsParser {}, nq::NQuadsParser::default(), sophia_turtle::parser::nq),
+        Fmt::Gnq => entries!(drive_q, gnq::GNQuadsParser {}, gnq::GNQuadsParser::default(), sophia_turtle::parser::gnq),
+        Fmt::Turtle => entries!(drive_t, turtle::TurtleParser { base: b.clone() }, turtle::TurtleParser::default(), sophia_turtle::parser::turtle),
+        Fmt::Trig => entries!(drive_q, trig::TriGParser { base: b.clone() }, trig::TriGParser::default(), sophia_turtle::parser::trig),
+        Fmt::Gtrig => entries!(drive_q, gtrig::GTriGParser { base: b.clone() }, gtrig::GTriGParser::default(), sophia_turtle::parser::gtrig),
+        Fmt::Xml => entries!(drive_t, sophia_xml::parser::RdfXmlParser { base: b.clone() }, sophia_xml::parser::RdfXmlParser::default(), sophia_xml::parser),
+        Fmt::JsonLd => {
+            let p = if base { JsonLdParser::new_with_options(JsonLdOptions::new().with_base(Iri::new_unchecked(std::sync::Arc::from(BASE)))) } else { JsonLdParser::new() };
+            match e {
+                Entry::Slice => drive_j(p.parse(data), c, &mut out),
+                Entry::Str => drive_j(p.parse_str(text.unwrap()), c, &mut out),
+                Entry::ModStr => drive_j(sophia_jsonld::parser::parse_str(text.unwrap()), c, &mut out),
+                Entry::ModBuf => drive_j(sophia_jsonld::parser::parse_bufread(data), c, &mut out),
+                Entry::Default => drive_j(JsonLdParser::default().parse(data), c, &mut out),
+                Entry::Buffered(n) => drive_j(p.parse(BufReader::with_capacity(n.max(1), data)), c, &mut out),
+                Entry::Cursor => drive_j(p.parse(Cursor::new(data.to_vec())), c, &mut out),
+                Entry::Feed { chunk, cut } => drive_j(p.parse(Feed::new(data, chunk, cut, None, failed.clone())), c, &mut out),
+                Entry::FailAt(k) => drive_j(p.parse(Feed::new(data, usize::MAX, None, Some(k), failed.clone())), c, &mut out),
+                Entry::Async => drive_j(poll_to_end(p.async_parse_str(text.unwrap())), c, &mut out),
+                Entry::Opts(k) => { let p = JsonLdParser::new_with_options(jsonld_opts(k)); let _ = p.options(); if k == 3 { let mut o2 = Outcome::default(); drive_q(p.parse(data), c, true, &mut o2); out = o2; } else { drive_j(p.parse(data), c, &mut out) } }
+            }
+        }
+    }
+    if failed.get() { out.io_failed = true; }
+    out
+}
+
+// ------------------------------------------------------------------------------------------------------
+// Documents: grammar-derived documents whose terms carry non-ASCII characters inside every kind of token
+// ------------------------------------------------------------------------------------------------------
+const CASE_LEN: [char; 28] = ['\u{130}', '\u{212A}', '\u{2126}', '\u{1E9E}', '\u{FB00}', '\u{FB01}', '\u{FB02}', '\u{FB03}', '\u{FB04}', '\u{FB05}', '\u{FB06}', '\u{149}', '\u{23A}', '\u{23E}', '\u{2C62}', '\u{2C64}', '\u{390}', '\u{3B0}', '\u{1F0}', '\u{DF}', '\u{1F80}', '\u{131}', '\u{17F}', '\u{1E96}', '\u{587}', '\u{2C6F}', '\u{A7AA}', '\u{1FB3}'];
+const COMBINING: [char; 10] = ['\u{301}', '\u{307}', '\u{338}', '\u{20DD}', '\u{FE0F}', '\u{200D}', '\u{200C}', '\u{34F}', '\u{1AB0}', '\u{E0100}'];
+const ASTRAL: [char; 10] = ['\u{1F600}', '\u{10000}', '\u{10FFFF}', '\u{E0001}', '\u{1D400}', '\u{20000}', '\u{F0000}', '\u{10400}', '\u{1F1F9}', '\u{EFFFD}'];
+const SPECIALS: [char; 14] = ['\u{FEFF}', '\u{FFFE}', '\u{FFFF}', '\u{FFFD}', '\u{0}', '\u{85}', '\u{2028}', '\u{2029}', '\u{A0}', '\u{3000}', '\u{202E}', '\u{61C}', '\u{AD}', '\u{7F}'];
+const LOOKALIKE: [char; 12] = ['\u{FF1C}', '\u{FF1E}', '\u{FF02}', '\u{2024}', '\u{FF0E}', '\u{FF20}', '\u{FF3F}', '\u{FF1A}', '\u{FF5B}', '\u{2039}', '\u{201C}', '\u{FF3C}'];
+const BAD_UTF8: [&[u8]; 16] = [b"\x80", b"\xBF", b"\xC0\xAF", b"\xC2", b"\xE2\x84", b"\xED\xA0\x80", b"\xF4\x90\x80\x80", b"\xF0\x9F\x98", b"\xFF", b"\xFE", b"\xF8\x88\x80\x80\x80", b"\xE0\x80\x80", b"\xEF\xBB", b"\xC4", b"\xE1\xBA", b"\xED\xBF\xBF"];
+
+fn esc_nt(s: &str) -> String { let mut o = String::new(); for c in s.chars() { match c { '\\' => o.push_str("\\\\"), '"' => o.push_str("\\\""), '\n' => o.push_str("\\n"), '\r' => o.push_str("\\r"), c => o.push(c) } } o }
+fn esc_json_bytes(s: &[u8]) -> Vec<u8> { let mut o = vec![]; for &b in s { match b { b'\\' => o.extend_from_slice(b"\\\\"), b'"' => o.extend_from_slice(b"\\\""), b'\n' => o.extend_from_slice(b"\\n"), b'\r' => o.extend_from_slice(b"\\r"), b'\t' => o.extend_from_slice(b"\\t"), b if b < 0x20 => o.extend_from_slice(format!("\\u{b:04x}").as_bytes()), b => o.push(b) } } o }
+fn esc_xml_bytes(s: &[u8]) -> Vec<u8> { let mut o = vec![]; for &b in s { match b { b'<' => o.extend_from_slice(b"&lt;"), b'>' => o.extend_from_slice(b"&gt;"), b'&' => o.extend_from_slice(b"&amp;"), b'"' => o.extend_from_slice(b"&quot;"), b => o.push(b) } } o }
+fn esc_json(s: &str) -> String { String::from_utf8(esc_json_bytes(s.as_bytes())).unwrap() }
+fn esc_xml(s: &str) -> String { String::from_utf8(esc_xml_bytes(s.as_bytes())).unwrap() }
+
+struct Pools;
+impl Pools {
+    const IRIS: [&'static str; 22] = ["http://e/s", "http://e/\u{130}stanbul", "http://\u{e9}.example/\u{1c5}?q=\u{212A}#\u{1E9E}", "urn:x:\u{FB00}", "http://[::1]/", "http://e/%C4%B0", "http://e/\u{10000}", "http://e/a\u{301}", "tag:a,2000:b", "http://e/\u{2126}/\u{149}", "http://e/p", "http://e/o",
+        "HTTP://E/\u{FB03}", "http://e/\u{23A}\u{23E}", "http://e/?\u{E000}", "http://e/#", "mailto:\u{131}@e", "http://e/\u{3B0}\u{390}", "http://e/a%2Fb", "file:///\u{1F600}", "http://e/\u{FEFF}", "x:"];
+    const REL: [&'static str; 8] = ["../o", "#f", "?q", "", "\u{130}", "a/\u{212A}", "//h/\u{FB01}", "./\u{1E9E}#\u{149}"];
+    const LABELS: [&'static str; 16] = ["b1", "a\u{130}b", "\u{212A}1", "a.b", "a\u{b7}", "a\u{300}b", "a-b", "_x", "1a", "a\u{203f}b", "\u{10000}x", "\u{FB00}", "\u{1E9E}\u{149}", "x\u{2126}", "a.b.c", "\u{37f}\u{2040}"];
+    const BAD_LABELS: [&'static str; 8] = ["a..b", "a.", ".a", "a.-b", "-a", "a b", "\u{300}a", "a\u{FF0E}"];
+    const TAGS: [&'static str; 10] = ["en", "en-US", "tr-TR", "de-CH-1901", "x-klingon", "EN", "zh-Hant-TW", "tr", "az-Latn", "el-polyton"];
+    const BAD_TAGS: [&'static str; 6] = ["\u{130}", "en-\u{212A}", "e\u{301}", "en-", "toolongtag1", "\u{FB01}"];
+    const LEX: [&'static str; 18] = ["", "\u{130}stanbul", "\u{212A}", "\u{FB01}n", "a\u{301}", "\u{1F600}", "\u{FEFF}x", "line\nbreak", "q\"uote", "back\\slash", "<tag>", "&amp;", "\u{2126}\u{149}\u{1E9E}", "I\u{307}", "\u{1F1F9}\u{1F1F7}", "\u{202E}rtl", "tab\there", "\u{FFFD}\u{FFFE}"];
+    const VARS: [&'static str; 8] = ["v", "\u{130}", "x1", "_y", "a\u{300}", "\u{212A}", "v\u{b7}", "\u{FB00}\u{203f}"];
+    const PREFIXES: [&'static str; 8] = ["", "e", "\u{130}", "\u{1c5}", "a.b", "a-1", "\u{212A}", "\u{FB01}x"];
+    const LOCALS: [&'static str; 12] = ["o", "\u{130}", "a.b", "a\\.b", "a:b", "%C4%B0", "1", "a\u{b7}", "\u{212A}elvin", "", "\u{1E9E}\u{149}", "a\\~b"];
+    const NCNAMES: [&'static str; 8] = ["p", "\u{130}", "\u{212A}p", "p\u{FB00}", "p.q", "p-1", "_p", "p\u{b7}"];
+}
+
+/// one random document of format `f`; `edge` also draws labels / tags the validators reject and relative IRIs
+fn gen_doc(f: Fmt, r: &mut Rng, edge: bool) -> String {
+    let iri = |r: &mut Rng| -> String { if edge && r.chance(1, 5) && !matches!(f, Fmt::Nt | Fmt::Nq) { r.ps(&Pools::REL).to_string() } else { r.ps(&Pools::IRIS).to_string() } };
+    let label = |r: &mut Rng| -> String { if edge && r.chance(1, 4) { r.ps(&Pools::BAD_LABELS).to_string() } else { r.ps(&Pools::LABELS).to_string() } };
+    let tag = |r: &mut Rng| -> String { if edge && r.chance(1, 4) { r.ps(&Pools::BAD_TAGS).to_string() } else { r.ps(&Pools::TAGS).to_string() } };
+    let nst = 1 + r.below(4);
+    let mut o = String::new();
+    match f {
+        Fmt::Nt | Fmt::Nq | Fmt::Gnq => {
+            let gz = f == Fmt::Gnq;
+            fn node(r: &mut Rng, gz: bool, pos: u8, depth: u8, iri: &dyn Fn(&mut Rng) -> String, label: &dyn Fn(&mut Rng) -> String, tag: &dyn Fn(&mut Rng) -> String) -> String {
+                let k = r.below(if gz { 7 } else if pos == 2 { 5 } else if pos == 1 { 1 } else { 3 });
+                match k {
+                    0 => format!("<{}>", iri(r)),
+                    1 => format!("_:{}", label(r)),
+                    2 if depth < 2 => format!("<< {} {} {} >>", node(r, gz, 0, depth + 1, iri, label, tag), node(r, gz, 1, depth + 1, iri, label, tag), node(r, gz, 2, depth + 1, iri, label, tag)),
+                    2 => format!("<{}>", iri(r)),
+                    3 => format!("\"{}\"@{}", esc_nt(r.ps(&Pools::LEX)), tag(r)),
+                    4 => if r.chance(1, 2) { format!("\"{}\"^^<{}>", esc_nt(r.ps(&Pools::LEX)), iri(r)) } else { format!("\"{}\"", esc_nt(r.ps(&Pools::LEX))) },
+                    _ => format!("{}{}", if r.chance(1, 2) { "?" } else { "$" }, r.ps(&Pools::VARS)),
+                }
+            }
+            for _ in 0..nst {
+                o.push_str(&format!("{} {} {}", node(r, gz, 0, 0, &iri, &label, &tag), node(r, gz, 1, 0, &iri, &label, &tag), node(r, gz, 2, 0, &iri, &label, &tag)));
+                if f != Fmt::Nt && r.chance(1, 2) { let gname = if gz { node(r, gz, 0, 1, &iri, &label, &tag) } else if r.chance(1, 2) { format!("<{}>", iri(r)) } else { format!("_:{}", label(r)) }; o.push(' '); o.push_str(&gname); }
+                o.push_str(if r.chance(1, 6) { " . # \u{130} \u{212A}\n" } else { " .\n" });
+            }
+        }
+        Fmt::Turtle | Fmt::Trig | Fmt::Gtrig => {
+            let gz = f == Fmt::Gtrig;
+            let pfx = r.ps(&Pools::PREFIXES);
+            o.push_str(&format!("@prefix {pfx}: <http://ns.example/{}#> .\n", r.ps(&["", "\u{130}", "\u{212A}/", "a\u{301}"])));
+            if r.chance(1, 3) { o.push_str(&format!("@base <http://b.example/{}/> .\n", r.ps(&["x", "\u{1E9E}", "\u{FB00}"]))); }
+            let res = |r: &mut Rng| -> String { match r.below(4) { 0 => format!("{pfx}:{}", r.ps(&Pools::LOCALS)), 1 => format!("_:{}", label(r)), 2 => format!("<{}>", if r.chance(1, 2) { r.ps(&Pools::REL).to_string() } else { iri(r) }), _ => if gz { format!("?{}", r.ps(&Pools::VARS)) } else { format!("{pfx}:{}", r.ps(&Pools::LOCALS)) } } };
+            let obj = |r: &mut Rng| -> String { match r.below(7) { 0 => format!("\"{}\"@{}", esc_nt(r.ps(&Pools::LEX)), tag(r)), 1 => format!("'''{}'''", r.ps(&Pools::LEX).replace('\\', "\\\\").replace('\'', "\\'")), 2 => format!("\"{}\"^^{}", esc_nt(r.ps(&Pools::LEX)), res(r)), 3 => format!("( {} {} )", res(r), r.ps(&["1", "2.5", "true", "\"\u{130}\""])), 4 => format!("[ {} {} ]", if gz { res(r) } else { format!("{pfx}:{}", r.ps(&Pools::LOCALS)) }, res(r)), 5 => format!("<< {} {} {} >>", res(r), if gz { res(r) } else { format!("<{}>", iri(r)) }, res(r)), _ => res(r) } };
+            let open_graph = f != Fmt::Turtle && r.chance(1, 2);
+            if open_graph { o.push_str(&format!("{} {{\n", res(r))); }
+            let pred = |r: &mut Rng| -> String { match r.below(4) { 0 => "a".to_string(), 1 => format!("<{}>", iri(r)), 2 if gz => format!("?{}", r.ps(&Pools::VARS)), _ => format!("{pfx}:{}", r.ps(&Pools::LOCALS)) } };
+            for _ in 0..nst { o.push_str(&format!("{} {} {} ; {} {} , {} .\n", res(r), pred(r), obj(r), pred(r), obj(r), obj(r))); }
+            if open_graph { o.push_str("}\n"); }
+        }
+        Fmt::Xml => {
+            o.push_str(&format!("<?xml version=\"1.0\" encoding=\"utf-8\"?>\n<rdf:RDF xmlns:rdf=\"http://www.w3.org/1999/02/22-rdf-syntax-ns#\" xmlns:e=\"http://ns.example/{}#\" xml:base=\"http://b.example/{}/\">\n", r.ps(&["", "\u{130}", "\u{212A}/"]), r.ps(&["x", "\u{1E9E}"])));
+            for _ in 0..nst {
+                let subj = if r.chance(1, 3) { format!("rdf:nodeID=\"{}\"", esc_xml(&label(r))) } else { format!("rdf:about=\"{}\"", esc_xml(&iri(r))) };
+                o.push_str(&format!(" <rdf:Description {subj}>\n"));
+                for _ in 0..1 + r.below(3) {
+                    let el = format!("e:{}", r.ps(&Pools::NCNAMES));
+                    match r.below(5) {
+                        0 => o.push_str(&format!("  <{el} rdf:resource=\"{}\"/>\n", esc_xml(&iri(r)))),
+                        1 => o.push_str(&format!("  <{el} xml:lang=\"{}\">{}</{el}>\n", esc_xml(&tag(r)), esc_xml(r.ps(&Pools::LEX)))),
+                        2 => o.push_str(&format!("  <{el} rdf:datatype=\"{}\">{}</{el}>\n", esc_xml(&iri(r)), esc_xml(r.ps(&Pools::LEX)))),
+                        3 => o.push_str(&format!("  <{el} rdf:nodeID=\"{}\"/>\n", esc_xml(&label(r)))),
+                        _ => o.push_str(&format!("  <{el} rdf:ID=\"{}\" e:{}=\"{}\">{}</{el}>\n", r.ps(&Pools::NCNAMES), r.ps(&Pools::NCNAMES), esc_xml(r.ps(&Pools::LEX)), esc_xml(r.ps(&Pools::LEX)))),
+                    }
+                }
+                o.push_str(" </rdf:Description>\n");
+            }
+            o.push_str("</rdf:RDF>\n");
+        }
+        Fmt::JsonLd => {
+            let id = |r: &mut Rng| -> String { if r.chance(1, 3) { format!("_:{}", label(r)) } else { iri(r) } };
+            let val = |r: &mut Rng| -> String { match r.below(5) { 0 => format!("{{\"@id\": \"{}\"}}", esc_json(&id(r))), 1 => format!("{{\"@value\": \"{}\", \"@language\": \"{}\"}}", esc_json(r.ps(&Pools::LEX)), esc_json(&tag(r))), 2 => format!("{{\"@value\": \"{}\", \"@type\": \"{}\"}}", esc_json(r.ps(&Pools::LEX)), esc_json(&iri(r))), 3 => format!("\"{}\"", esc_json(r.ps(&Pools::LEX))), _ => format!("{{\"@list\": [\"{}\", 1, true]}}", esc_json(r.ps(&Pools::LEX))) } };
+            o.push_str(&format!("{{\"@context\": {{\"e\": \"http://ns.example/{}#\", \"t\": {{\"@id\": \"e:{}\", \"@language\": \"{}\"}}}},\n", r.ps(&["", "\u{130}", "\u{212A}/"]), esc_json(r.ps(&Pools::NCNAMES)), esc_json(&tag(r))));
+            o.push_str(&format!(" \"@id\": \"{}\", \"@type\": \"e:{}\", \"t\": \"{}\"", esc_json(&id(r)), esc_json(r.ps(&Pools::NCNAMES)), esc_json(r.ps(&Pools::LEX))));
+            for _ in 0..nst { o.push_str(&format!(",\n \"{}\": [{}, {}]", if r.chance(1, 2) { format!("e:{}", esc_json(r.ps(&Pools::NCNAMES))) } else { esc_json(&iri(r)) }, val(r), val(r))); }
+            if r.chance(1, 2) { o.push_str(&format!(",\n \"@graph\": [{{\"@id\": \"{}\", \"e:g\": {}}}]", esc_json(&id(r)), val(r))); }
+            o.push_str("}\n");
+        }
+    }
+    o
+}
+
+/// document number `k` of format `f`: 0 = the hand-written seed document, 1..=NGEN generated (fixed), above: token soup / random bytes from `r`
+const NGEN: usize = 12;
+fn corpus(f: Fmt, k: usize, r: &mut Rng) -> Vec<u8> {
+    if k == 0 { return seeds(f)[0].as_bytes().to_vec(); }
+    if k <= NGEN { let mut g = Rng::new(0xD0C5).fork((f as u64) * 1000 + k as u64); return gen_doc(f, &mut g, k > NGEN / 2).into_bytes(); }
+    match k % 3 {
+        0 => { let n = 3 + r.below(60); (0..n).map(|_| r.next() as u8).collect() }
+        1 => { let d = dictionary(f); let n = 2 + r.below(24); let mut v = vec![]; for _ in 0..n { v.extend_from_slice(r.ps(&d).as_bytes()); if r.chance(1, 2) { v.push(b' '); } } v }
+        _ => { let n = 3 + r.below(80); (0..n).map(|_| 0x20 + (r.next() % 0x5F) as u8).collect() }
+    }
+}
+
+// ------------------------------------------------------------------------------------------------------
+// Wrappers: the document inside another syntax (polyglot inputs); (prefix, payload, suffix)
+// ------------------------------------------------------------------------------------------------------
+fn media_type(f: Fmt) -> &'static str { match f { Fmt::Nt => "application/n-triples", Fmt::Nq | Fmt::Gnq => "application/n-quads", Fmt::Turtle => "text/turtle", Fmt::Trig | Fmt::Gtrig => "application/trig", Fmt::Xml => "application/rdf+xml", Fmt::JsonLd => "application/ld+json" } }
+fn utf16(s: &[u8], be: bool) -> Vec<u8> { let t = String::from_utf8_lossy(s); let mut o = if be { vec![0xFE, 0xFF] } else { vec![0xFF, 0xFE] }; for u in t.encode_utf16() { if be { o.extend_from_slice(&u.to_be_bytes()) } else { o.extend_from_slice(&u.to_le_bytes()) } } o }
+const NWRAP: usize = 32;
+const WRAP_NAMES: [&str; NWRAP] = ["as is", "in an HTML page (script element in the head)", "at the end of an HTML fragment (script element)", "in an upper-case HTML page after another script", "in an HTML page between two other scripts", "in an XML envelope (CDATA)", "escaped in an XML element", "as a JSON string",
+    "as JSONP", "after an XSSI guard", "in a Markdown code fence", "as an HTTP response", "as a MIME multipart body", "in an HTML comment", "behind # on every line", "in a Turtle long string",
+    "in an RDF/XML XMLLiteral", "escaped in an RDF/XML property", "as a JSON-LD @value", "in SVG metadata", "as a data: URI", "after a document of another format", "as UTF-16LE with BOM", "as UTF-16BE with BOM",
+    "with CRLF line ends", "with Unicode line separators", "after a BOM and white space", "after an ISO-8859-1 XML declaration", "in an N-Triples literal", "twice", "in an HTML page whose script type has parameters", "in an XHTML page (script with CDATA)"];
+fn wrap(kind: usize, pf: Fmt, doc: &[u8], r: &mut Rng) -> (Vec<u8>, Vec<u8>, Vec<u8>) {
+    let mt = media_type(pf);
+    let s = |x: &str| x.as_bytes().to_vec();
+    let raw = doc.to_vec();
+    match kind % NWRAP {
+        0 => (vec![], raw, vec![]),
+        1 => (s(&format!("<!DOCTYPE html>\n<html lang=\"en\"><head><meta charset=\"utf-8\"><title>Data about things and places</title>\n<script type=\"{mt}\">")), raw, s("</script></head><body><p>See the data block.</p></body></html>\n")),
+        2 => (s(&format!("<h1>A page, its title and some keywords: first, second, third, fourth, fifth, sixth, seventh, eighth, ninth, tenth, eleventh, twelfth</h1>\n<script type=\"{mt}\">")), raw, s("</script>")),
+        3 => (s(&format!("<HTML><HEAD><TITLE>KELVIN AND OHM</TITLE><SCRIPT SRC=\"lib.js\"></SCRIPT><SCRIPT ID=data TYPE=\"{}\">", mt.to_ascii_uppercase())), raw, s("</SCRIPT></HEAD></HTML>")),
+        4 => (s(&format!("<html><script type=\"text/javascript\">var x = \"</\" + \"script>\";</script><script type='{mt}'>")), raw, s(&format!("</script><script type=\"{mt}\">{{}}</script></html>"))),
+        5 => (s(&format!("<?xml version=\"1.0\" encoding=\"UTF-8\"?>\n<envelope><data type=\"{mt}\"><![CDATA[")), raw, s("]]></data></envelope>\n")),
+        6 => (s("<?xml version=\"1.0\"?><doc><pre>"), esc_xml_bytes(doc), s("</pre></doc>")),
+        7 => (s(&format!("{{\"type\": \"{mt}\", \"data\": \"")), esc_json_bytes(doc), s("\"}")),
+        8 => (s("callback("), raw, s(");")),
+        9 => (s(")]}',\n"), raw, vec![]),
+        10 => (s(&format!("# Data\n\nSome *text* with `code`.\n\n```{}\n", mt.rsplit('/').next().unwrap())), raw, s("\n```\n")),
+        11 => (s(&format!("HTTP/1.1 200 OK\r\nContent-Type: {mt}; charset=utf-8\r\nContent-Length: {}\r\n\r\n", doc.len())), raw, vec![]),
+        12 => (s(&format!("MIME-Version: 1.0\r\nContent-Type: multipart/mixed; boundary=xx\r\n\r\n--xx\r\nContent-Type: {mt}\r\n\r\n")), raw, s("\r\n--xx--\r\n")),
+        13 => (s("<!-- "), raw, s(" -->")),
+        14 => (vec![], { let mut o = s("# "); for &b in doc { o.push(b); if b == b'\n' { o.extend_from_slice(b"# "); } } o }, s("\n")),
+        15 => (s("<http://e/s> <http://e/p> \"\"\""), { let mut o = vec![]; for &b in doc { match b { b'\\' => o.extend_from_slice(b"\\\\"), b'"' => o.extend_from_slice(b"\\\""), b => o.push(b) } } o }, s("\"\"\" .\n")),
+        16 => (s("<rdf:RDF xmlns:rdf=\"http://www.w3.org/1999/02/22-rdf-syntax-ns#\" xmlns:e=\"http://e/\"><rdf:Description rdf:about=\"http://e/s\"><e:p rdf:parseType=\"Literal\">"), raw, s("</e:p></rdf:Description></rdf:RDF>")),
+        17 => (s("<rdf:RDF xmlns:rdf=\"http://www.w3.org/1999/02/22-rdf-syntax-ns#\" xmlns:e=\"http://e/\"><rdf:Description rdf:about=\"http://e/s\"><e:p>"), esc_xml_bytes(doc), s("</e:p></rdf:Description></rdf:RDF>")),
+        18 => (s("{\"@id\": \"http://e/s\", \"http://e/p\": {\"@value\": \""), esc_json_bytes(doc), s("\"}}")),
+        19 => (s("<svg xmlns=\"http://www.w3.org/2000/svg\"><metadata>"), raw, s("</metadata><circle r=\"1\"/></svg>")),
+        20 => (s(&format!("data:{mt};charset=utf-8,")), { let mut o = vec![]; for &b in doc { if b.is_ascii_alphanumeric() { o.push(b) } else { o.extend_from_slice(format!("%{b:02X}").as_bytes()) } } o }, vec![]),
+        21 => { let other = FMTS[r.below(8)]; let mut p = seeds(other)[0].as_bytes().to_vec(); p.push(b'\n'); (p, raw, vec![]) }
+        22 => (vec![], utf16(doc, false), vec![]),
+        23 => (vec![], utf16(doc, true), vec![]),
+        24 => (vec![], { let mut o = vec![]; for &b in doc { if b == b'\n' { o.push(b'\r'); } o.push(b); } o }, vec![]),
+        25 => (vec![], { let sep = *r.pick(&["\u{2028}", "\u{2029}", "\u{85}", "\r", "\u{b}", "\u{c}"]); let mut o = vec![]; for &b in doc { if b == b'\n' { o.extend_from_slice(sep.as_bytes()) } else { o.push(b) } } o }, vec![]),
+        26 => (s(r.ps(&["\u{FEFF}", "\u{FEFF} \n", " \u{FEFF}", "\u{FEFF}\u{FEFF}", "\n\t \u{FEFF}", "\u{FFFE}"])), raw, vec![]),
+        27 => (s("<?xml version=\"1.0\" encoding=\"ISO-8859-1\"?>\n"), { let t = String::from_utf8_lossy(doc).to_string(); let t = if t.starts_with("<?xml") { t.splitn(2, "?>").nth(1).unwrap_or("").to_string() } else { t }; t.chars().map(|c| if (c as u32) < 256 { c as u32 as u8 } else { b'?' }).collect() }, vec![]),
+        28 => (s("<http://e/s> <http://e/p> \""), { let mut o = vec![]; for &b in doc { match b { b'\\' => o.extend_from_slice(b"\\\\"), b'"' => o.extend_from_slice(b"\\\""), b'\n' => o.extend_from_slice(b"\\n"), b'\r' => o.extend_from_slice(b"\\r"), b => o.push(b) } } o }, s("\" .\n")),
+        29 => (raw.clone(), raw, vec![]),
+        30 => (s(&format!("<!doctype html><title>x</title><p>text</p><script nonce=abc type=\"{mt};profile=http://www.w3.org/ns/json-ld#expanded\" id=\"d\">")), raw, s("</script ><p>after</p>")),
+        _ => (s(&format!("<?xml version=\"1.0\"?>\n<html xmlns=\"http://www.w3.org/1999/xhtml\"><head><title>x</title><script type=\"{mt}\">//<![CDATA[\n")), raw, s("\n//]]></script></head><body/></html>")),
+    }
+}
+/// wrappers whose prefix and suffix are text around the untouched payload (the shapes in which data is embedded in pages and envelopes)
+const EMBEDDING_WRAPS: [usize; 12] = [1, 2, 3, 4, 5, 10, 13, 16, 19, 21, 30, 31];
+
+// ------------------------------------------------------------------------------------------------------
+// Unicode at every position class
+// ------------------------------------------------------------------------------------------------------
+#[derive(Clone, Copy, PartialEq, Debug)]
+enum TK { Word, Space, Punct, High }
+fn tokens(d: &[u8]) -> Vec<(usize, usize, TK)> {
+    let class = |b: u8| if b >= 0x80 { TK::High } else if b.is_ascii_alphanumeric() { TK::Word } else if b.is_ascii_whitespace() { TK::Space } else { TK::Punct };
+    let mut v = vec![]; let mut i = 0;
+    while i < d.len() { let c = class(d[i]); let mut j = i + 1; if c != TK::Punct { while j < d.len() && class(d[j]) == c { j += 1; } } v.push((i, j, c)); i = j; }
+    v
+}
+/// a unit to insert: 1..3 code points (or an ill-formed byte sequence) of one class
+fn unit(r: &mut Rng, class: usize) -> (Vec<u8>, String) {
+    let mut s = String::new();
+    match class % 8 {
+        0 | 1 => { let c = *r.pick(&CASE_LEN); for _ in 0..1 + r.below(3) { s.push(c); } }
+        2 => { s.push(*r.pick(&CASE_LEN)); s.push(*r.pick(&COMBINING)); if r.chance(1, 2) { s.push(*r.pick(&COMBINING)); } }
+        3 => { s.push(*r.pick(&ASTRAL)); if r.chance(1, 3) { s.push(*r.pick(&ASTRAL)); } }
+        4 => { s.push(*r.pick(&SPECIALS)); }
+        5 => { s.push(*r.pick(&LOOKALIKE)); }
+        6 => { s.push(*r.pick(&COMBINING)); }
+        _ => { let b = *r.pick(&BAD_UTF8); return (b.to_vec(), format!("the ill-formed bytes {b:02x?}")); }
+    }
+    let name = s.chars().map(|c| format!("U+{:04X}", c as u32)).collect::<Vec<_>>().join(" ");
+    (s.into_bytes(), name)
+}
+const MODE_NAMES: [&str; 12] = ["once", "at several places", "before every token", "after every word", "inside every word", "after every punctuation mark", "inside every white-space run", "in place of look-alike ASCII letters", "at the very start and the very end", "inside every non-ASCII run", "after every word inside double quotes", "once inside double quotes"];
+/// byte ranges strictly between two unescaped double quotes
+fn quoted_spans(d: &[u8]) -> Vec<(usize, usize)> { let mut v = vec![]; let mut open: Option<usize> = None; let mut i = 0; while i < d.len() { match d[i] { b'\\' => { i += 1; } b'"' => { match open { None => open = Some(i + 1), Some(a) => { if i > a { v.push((a, i)); } open = None; } } } _ => {} } i += 1; } v }
+const SCOPE_NAMES: [&str; 4] = ["the text before the payload", "the payload", "the text after the payload", "the whole input"];
+#[derive(Clone, Debug)]
+struct Tort { mode: usize, scope: usize, unit: Vec<u8>, unit_name: String }
+fn lookalike(b: u8, next: Option<u8>, r: &mut Rng) -> Option<(&'static str, usize)> {
+    match (b, next) {
+        (b'f', Some(b'f')) => Some(("\u{FB00}", 2)), (b'f', Some(b'i')) => Some(("\u{FB01}", 2)), (b'f', Some(b'l')) => Some(("\u{FB02}", 2)), (b's', Some(b't')) => Some(("\u{FB06}", 2)), (b's', Some(b's')) => Some((if r.chance(1, 2) { "\u{1E9E}" } else { "\u{DF}" }, 2)),
+        (b'i', _) => Some((if r.chance(1, 2) { "\u{130}" } else { "\u{131}" }, 1)), (b'I', _) => Some(("\u{130}", 1)), (b'k', _) | (b'K', _) => Some(("\u{212A}", 1)), (b's', _) => Some(("\u{17F}", 1)), (b'n', _) => Some(("\u{149}", 1)),
+        (b'A', _) | (b'a', _) => Some(("\u{23A}", 1)), (b'T', _) | (b't', _) => Some(("\u{23E}", 1)), (b'L', _) | (b'l', _) => Some(("\u{2C62}", 1)), (b'O', _) | (b'o', _) => Some(("\u{2126}", 1)), (b'j', _) => Some(("\u{1F0}", 1)), (b'h', _) => Some(("\u{1E96}", 1)),
+        _ => None,
+    }
+}
+/// apply `t` to `part` (one of prefix / payload / suffix, or their concatenation)
+fn torture_part(t: &Tort, part: &[u8], r: &mut Rng) -> Vec<u8> {
+    if t.mode == 7 {
+        let every = [1usize, 1, 2, 8][r.below(4)];
+        let mut o = vec![]; let mut i = 0;
+        while i < part.len() { match lookalike(part[i], part.get(i + 1).copied(), r) { Some((rep, n)) if r.below(every) == 0 => { o.extend_from_slice(rep.as_bytes()); i += n; } _ => { o.push(part[i]); i += 1; } } }
+        return o;
+    }
+    let tk = tokens(part);
+    let mut at: Vec<usize> = vec![];
+    let inside = |a: usize, b: usize, r: &mut Rng| if b - a >= 2 { a + 1 + r.below(b - a - 1) } else { b };
+    match t.mode {
+        0 | 1 => { let n = if t.mode == 0 { 1 } else { 2 + r.below(6) }; for _ in 0..n { if tk.is_empty() { at.push(0); continue; } let (a, b, _) = *r.pick(&tk); at.push(match r.below(3) { 0 => a, 1 => inside(a, b, r), _ => b }); } }
+        2 => at.extend(tk.iter().map(|x| x.0)),
+        3 => at.extend(tk.iter().filter(|x| x.2 == TK::Word).map(|x| x.1)),
+        4 => { for x in tk.iter().filter(|x| x.2 == TK::Word && x.1 - x.0 >= 2) { at.push((x.0 + x.1) / 2); } }
+        5 => at.extend(tk.iter().filter(|x| x.2 == TK::Punct).map(|x| x.1)),
+        6 => { for x in tk.iter().filter(|x| x.2 == TK::Space) { at.push(inside(x.0, x.1, r)); } }
+        8 => { at.push(0); at.push(part.len()); }
+        10 | 11 => { let spans = quoted_spans(part); let inq = |p: usize| spans.iter().any(|s| s.0 <= p && p <= s.1);
+            let cands: Vec<usize> = tk.iter().filter(|x| x.2 == TK::Word && inq(x.0) && inq(x.1)).map(|x| x.1).collect();
+            if t.mode == 10 { at.extend(cands); } else if !cands.is_empty() { at.push(*r.pick(&cands)); } else if let Some(sp) = spans.first() { at.push(sp.0); } }
+        _ => { for x in tk.iter().filter(|x| x.2 == TK::High) { at.push(inside(x.0, x.1, r)); } if at.is_empty() { at.push(part.len() / 2); } }
+    }
+    at.sort();
+    let mut o = Vec::with_capacity(part.len() + at.len() * t.unit.len()); let mut k = 0;
+    for (i, &b) in part.iter().enumerate() { while k < at.len() && at[k] == i { o.extend_from_slice(&t.unit); k += 1; } o.push(b); }
+    while k < at.len() { o.extend_from_slice(&t.unit); k += 1; }
+    o
+}
+fn apply_torture(t: &Tort, pre: &[u8], pay: &[u8], suf: &[u8], r: &mut Rng) -> Vec<u8> {
+    let mut scope = t.scope % 4;
+    if (scope == 0 && pre.is_empty()) || (scope == 2 && suf.is_empty()) { scope = 1; }
+    match scope {
+        0 => [torture_part(t, pre, r), pay.to_vec(), suf.to_vec()].concat(),
+        1 => [pre.to_vec(), torture_part(t, pay, r), suf.to_vec()].concat(),
+        2 => [pre.to_vec(), pay.to_vec(), torture_part(t, suf, r)].concat(),
+        _ => torture_part(t, &[pre, pay, suf].concat(), r),
+    }
+}
+
+/// A complete description of one input and of the parser runs made on it.
+#[derive(Clone, Debug)]
+struct Recipe { pf: Fmt, doc: usize, wrap: usize, tort: Option<Tort>, parser: Fmt, base: bool, alts: Vec<(Entry, Consume)>, seed: u64 }
+fn materialize(rc: &Recipe) -> (Vec<u8>, String) {
+    let mut r = Rng::new(rc.seed);
+    let doc = corpus(rc.pf, rc.doc, &mut r);
+    let (pre, pay, suf) = wrap(rc.wrap, rc.pf, &doc, &mut r);
+    let docname = if rc.doc == 0 { "the seed document".to_string() } else if rc.doc <= NGEN { format!("generated document #{}", rc.doc) } else { ["random bytes", "a soup of dictionary tokens", "random printable ASCII"][rc.doc % 3].to_string() };
+    match &rc.tort {
+        None => ([pre, pay, suf].concat(), format!("{:?}: {docname} {}", rc.pf, WRAP_NAMES[rc.wrap % NWRAP])),
+        Some(t) => (apply_torture(t, &pre, &pay, &suf, &mut r), format!("{:?}: {docname} {}, with {} inserted {} in {}", rc.pf, WRAP_NAMES[rc.wrap % NWRAP], t.unit_name, MODE_NAMES[t.mode % 12], SCOPE_NAMES[t.scope % 4])),
+    }
+}
+fn random_entry(r: &mut Rng, f: Fmt, base: bool, len: usize) -> Entry {
+    loop {
+        let e = match r.below(if f == Fmt::JsonLd { 13 } else { 10 }) {
+            0 => Entry::Str, 1 => Entry::ModStr, 2 => Entry::ModBuf, 3 => Entry::Default, 4 => Entry::Buffered(*r.pick(&[1usize, 2, 3, 4, 5, 7, 8, 16, 64, 4096])), 5 => Entry::Cursor,
+            6 => Entry::Feed { chunk: *r.pick(&[1usize, 2, 3, 5, 9, 33]), cut: None }, 7 => Entry::Feed { chunk: usize::MAX, cut: Some(r.below(len.max(1))) }, 8 => Entry::FailAt(r.below(len.max(1))), 9 => Entry::Slice,
+            10 => Entry::Async, _ => Entry::Opts(r.below(8) as u8),
+        };
+        if base && e.uses_default_parser() && !matches!(f, Fmt::Nt | Fmt::Nq | Fmt::Gnq) { continue; }
+        return e;
+    }
+}
+fn random_consume(r: &mut Rng) -> Consume { match r.below(6) { 0 => Consume::ForEach, 1 => Consume::Owned, 2 => Consume::Steps, 3 => Consume::SinkFail(r.below(4)), 4 => Consume::Collect, _ => Consume::Owned } }
+fn random_tort(r: &mut Rng) -> Tort { let k = r.below(8); let (unit, unit_name) = unit(r, k); Tort { mode: r.below(12), scope: r.below(4), unit, unit_name } }
+/// the formats in which wrapper `w` is itself a well-formed document (the payload sits in a literal / a comment)
+fn host_formats(w: usize) -> &'static [Fmt] { match w % NWRAP { 14 => &[Fmt::Turtle, Fmt::Trig, Fmt::Gtrig, Fmt::Nt, Fmt::Nq, Fmt::Gnq], 15 => &[Fmt::Turtle, Fmt::Trig, Fmt::Gtrig], 16 | 17 | 19 => &[Fmt::Xml], 18 | 7 => &[Fmt::JsonLd], 28 => &[Fmt::Nt, Fmt::Nq, Fmt::Gnq, Fmt::Turtle, Fmt::Trig, Fmt::Gtrig], _ => &[] } }
+/// the k-th case of the random polyglot stream
+fn random_recipe(base: &Rng, k: usize) -> Recipe {
+    let mut r = base.fork(2_000_000 + k as u64);
+    let pf = FMTS[r.below(8)];
+    let doc = match r.below(10) { 0..=2 => 0, 3..=7 => 1 + r.below(NGEN), _ => NGEN + 1 + r.below(3) };
+    let wrap = if r.chance(1, 4) { 0 } else { r.below(NWRAP) };
+    let tort = if r.chance(1, 6) { None } else { Some(random_tort(&mut r)) };
+    let hosts = host_formats(wrap);
+    let parser = if !hosts.is_empty() && r.chance(1, 2) { *r.pick(hosts) } else if r.chance(3, 5) { pf } else { FMTS[r.below(8)] };
+    let b = r.chance(1, 2);
+    let n_alt = 1 + r.below(2);
+    let alts = (0..n_alt).map(|_| (random_entry(&mut r, parser, b, 600), random_consume(&mut r))).collect();
+    Recipe { pf, doc, wrap, tort, parser, base: b, alts, seed: r.next() }
+}
+/// the directed (systematic) stream: every wrapper, every parser on the embedding wrappers, every case-changing character
+/// saturating each part of an embedded document, every entry point x every way of consuming
+fn directed_recipes(thorough: bool) -> Vec<Recipe> {
+    let mut v = vec![]; let mut seed = 0x5EED_0000u64;
+    let mut push = |v: &mut Vec<Recipe>, pf, doc, wrap, tort, parser, base, alts: Vec<(Entry, Consume)>| { seed += 1; v.push(Recipe { pf, doc, wrap, tort, parser, base, alts, seed }); };
+    let all_entries = |f: Fmt, base: bool| -> Vec<Entry> {
+        let mut e = vec![Entry::Str, Entry::Buffered(1), Entry::Buffered(3), Entry::Buffered(4096), Entry::Cursor, Entry::Feed { chunk: 1, cut: None }, Entry::Feed { chunk: 7, cut: None }, Entry::Feed { chunk: usize::MAX, cut: Some(97) }, Entry::FailAt(0), Entry::FailAt(40), Entry::FailAt(100_000)];
+        if !base || matches!(f, Fmt::Nt | Fmt::Nq | Fmt::Gnq) { e.extend([Entry::ModStr, Entry::ModBuf, Entry::Default]); }
+        if f == Fmt::JsonLd { e.push(Entry::Async); for k in 0..8 { e.push(Entry::Opts(k)); } }
+        e
+    };
+    let consumes = [Consume::ForEach, Consume::Owned, Consume::Steps, Consume::SinkFail(0), Consume::SinkFail(2), Consume::Collect];
+    // (1) every entry point x every consumption, on valid documents, a truncated one and a wrapped one
+    for f in FMTS { for base in [true, false] { for (doc, wrap) in [(0usize, 0usize), (1, 0), (NGEN, 0), (0, 1), (0, 26)] {
+        let mut alts = vec![]; for e in all_entries(f, base) { for c in consumes { alts.push((e, c)); } }
+        push(&mut v, f, doc, wrap, None, f, base, alts);
+    } } }
+    // (2) every wrapper of every document kind, given to the parser of the embedded format and to the parsers of the wrapping syntaxes
+    for pf in FMTS { for doc in [0usize, 2, NGEN - 1] { for w in 0..NWRAP {
+        let k = v.len();
+        push(&mut v, pf, doc, w, None, pf, k % 2 == 0, vec![(Entry::Str, Consume::Owned), (Entry::Feed { chunk: 1 + k % 5, cut: None }, Consume::Steps)]);
+        if doc == 0 { for other in [Fmt::Xml, Fmt::JsonLd, Fmt::Turtle, Fmt::Gtrig, Fmt::Nq] { if other != pf { push(&mut v, pf, doc, w, None, other, k % 2 == 1, vec![(Entry::Buffered(2 + k % 7), Consume::ForEach)]); } } }
+        for &host in host_formats(w) { if host != pf { push(&mut v, pf, doc, w, None, host, k % 2 == 0, vec![(Entry::Cursor, Consume::Owned)]);
+            // the embedded text with difficult characters, inside a literal of the hosting document
+            for (ci, c) in [CASE_LEN[0], CASE_LEN[1], CASE_LEN[3], CASE_LEN[4], COMBINING[0], ASTRAL[0], SPECIALS[0], SPECIALS[3]].iter().enumerate() {
+                let t = Tort { mode: [3usize, 4, 2, 0][(ci + w) % 4], scope: 1, unit: c.to_string().into_bytes(), unit_name: format!("U+{:04X}", *c as u32) };
+                push(&mut v, pf, doc, w, Some(t), host, (k + ci) % 2 == 0, vec![]); } } }
+    } } }
+    // (3) each character whose case mappings change its length (and a few others), saturating one part of an embedded document
+    let mut chars: Vec<char> = CASE_LEN.to_vec(); chars.extend([COMBINING[1], ASTRAL[0], ASTRAL[2], SPECIALS[0], SPECIALS[4], LOOKALIKE[0]]);
+    let docs: &[usize] = if thorough { &[0, 1, 2, 3, 7, 8] } else { &[0, 1] };
+    for pf in FMTS { for &doc in docs { for &w in EMBEDDING_WRAPS.iter().chain([0usize, 7].iter()) { for (ci, c) in chars.iter().enumerate() { for scope in 0..3usize {
+        if scope != 1 && (w == 0 || (ci + w) % 3 != 0) && !thorough { continue; }
+        if scope != 1 && w == 0 { continue; }
+        let mode = if w == 0 { [10usize, 3, 4, 10, 11, 2, 5, 6][(ci + doc) % 8] } else { [3usize, 4, 2, 5, 6, 8][(ci + w + doc + scope) % 6] };
+        let t = Tort { mode, scope, unit: c.to_string().into_bytes(), unit_name: format!("U+{:04X}", *c as u32) };
+        let k = v.len();
+        let parser = if k % 9 == 8 { FMTS[(k / 9) % 8] } else { pf };
+        push(&mut v, pf, doc, w, Some(t), parser, k % 2 == 0, if k % 4 == 0 { vec![([Entry::Str, Entry::Cursor, Entry::Buffered(5)][k % 3], consumes[k % 6])] } else { vec![] });
+    } } } } }
+    // (4) ill-formed UTF-8 and BOMs at each position class of each seed document
+    for pf in FMTS { for (bi, b) in BAD_UTF8.iter().enumerate() { for mode in [0usize, 2, 4, 8] {
+        let t = Tort { mode, scope: 3, unit: b.to_vec(), unit_name: format!("the ill-formed bytes {b:02x?}") };
+        let k = v.len();
+        push(&mut v, pf, bi % 3, [0usize, 1, 5][k % 3], Some(t), pf, k % 2 == 0, if k % 3 == 0 { vec![(Entry::Feed { chunk: 1 + k % 4, cut: None }, Consume::Steps)] } else { vec![] });
+    } } }
+    v
+}
+
+// ------------------------------------------------------------------------------------------------------
+// Running a recipe: the property oracle on every run, and agreement of every entry point with parse(&[u8])
+// ------------------------------------------------------------------------------------------------------
+thread_local! { static LAST_PANIC: std::cell::RefCell<String> = std::cell::RefCell::new(String::new()); static RAW_INVALID_IRI: std::cell::RefCell<Option<String>> = std::cell::RefCell::new(None); }
+static WATCH_CASE: std::sync::atomic::AtomicU64 = std::sync::atomic::AtomicU64::new(0);
+static WATCH_TICK: std::sync::atomic::AtomicU64 = std::sync::atomic::AtomicU64::new(0);
+fn watch(case: u64) { WATCH_CASE.store(case, std::sync::atomic::Ordering::Relaxed); WATCH_TICK.fetch_add(1, std::sync::atomic::Ordering::Relaxed); }
+/// a parser that does not terminate violates the property: after `secs` seconds on one input, record the case and stop
+fn start_watchdog(out: String, secs: u64) {
+    std::thread::spawn(move || { let mut last = u64::MAX; let mut since = std::time::Instant::now();
+        loop { std::thread::sleep(std::time::Duration::from_millis(500)); let t = WATCH_TICK.load(std::sync::atomic::Ordering::Relaxed);
+            if t != last { last = t; since = std::time::Instant::now(); continue; }
+            if t > 0 && since.elapsed().as_secs() >= secs { let c = WATCH_CASE.load(std::sync::atomic::Ordering::Relaxed); let _ = std::fs::create_dir_all(&out); let _ = std::fs::write(format!("{out}/progress"), c.to_string()); eprintln!("c08: no progress for {secs} s on case {c}: a parser does not terminate"); std::process::exit(9); } } });
+}
+
+fn guarded(f: Fmt, base: bool, data: &[u8], e: Entry, c: Consume) -> Result<Outcome, String> {
+    RAW_INVALID_IRI.with(|x| *x.borrow_mut() = None);
+    match catch_unwind(AssertUnwindSafe(|| parse_with(f, base, data, e, c))) { Ok(mut o) => { o.raw_invalid_iri = RAW_INVALID_IRI.with(|x| x.borrow().clone()); Ok(o) } Err(_) => Err(LAST_PANIC.with(|l| l.borrow().clone()).chars().take(200).collect()) }
+}
+fn is_prefix(a: &[String], b: &[String]) -> bool { a.len() <= b.len() && a.iter().zip(b.iter()).all(|(x, y)| x == y) }
+/// How an alternative run relates to the reference run parse(&[u8]) / for_each.
+enum Agreement {
+    Same,
+    /// one of the two runs reports an error earlier than the other and delivered a prefix of the other's statements:
+    /// allowed by the property (an error is an admissible outcome); recorded as a statistic
+    EarlierError(&'static str),
+    /// anything else: different statements, a swallowed reader failure, a lost sink error
+    Differs(String),
+}
+fn agreement(rf: &Outcome, a: &Outcome, e: Entry, c: Consume) -> Agreement {
+    use Agreement::*;
+    if matches!(e, Entry::Opts(_)) { return Same; }
+    let show = |o: &Outcome| format!("{} statement(s), {}", o.stmts.len(), match &o.err { Some(x) => format!("error {x:?}"), None => "no error".to_string() });
+    if a.io_failed {
+        if a.err.is_none() && !a.sink { return Differs(format!("reported no error although its reader failed ({} statements delivered)", a.stmts.len())); }
+        if !is_prefix(&a.stmts, &rf.stmts) { return Differs(format!("delivered, before its reader failed, statements that parse(&[u8]) does not deliver at that place: {:?}", a.stmts.iter().zip(rf.stmts.iter().chain(std::iter::repeat(&String::new()))).find(|(x, y)| x != y).map(|(x, _)| x))); }
+        return Same;
+    }
+    let earlier = |a: &Outcome, rf: &Outcome| -> Option<&'static str> {
+        if a.err.is_some() && a.err != rf.err && is_prefix(&a.stmts, &rf.stmts) { Some("alternative-entry-point") } else if rf.err.is_some() && a.err != rf.err && is_prefix(&rf.stmts, &a.stmts) { Some("parse-on-a-slice") } else { None }
+    };
+    match c {
+        Consume::ForEach | Consume::Owned | Consume::Steps => { if a.stmts != rf.stmts || a.err != rf.err { return match earlier(a, rf) { Some(w) => EarlierError(w), None => Differs(format!("gave {} but parse(&[u8]) gave {}", show(a), show(rf))) }; } }
+        Consume::SinkFail(k) => {
+            if a.sink { if a.stmts.len() != k + 1 || !is_prefix(&a.stmts, &rf.stmts) { return Differs(format!("with a sink failing at statement {}: sink error reported, {} but parse(&[u8]) gave {}", k + 1, show(a), show(rf))); } }
+            else if a.stmts.len() > k || (rf.stmts.len() > k && a.err.is_none()) { return Differs(format!("with a sink failing at statement {}: the sink's error did not come back, {} but parse(&[u8]) gave {}", k + 1, show(a), show(rf))); }
+            else if a.stmts != rf.stmts || a.err != rf.err { return match earlier(a, rf) { Some(w) => EarlierError(w), None => Differs(format!("with a sink failing at statement {}: sink error reported = false, {} but parse(&[u8]) gave {}", k + 1, show(a), show(rf))) }; }
+        }
+        Consume::Collect => {
+            if rf.err.is_none() { if a.err.is_some() { return EarlierError("alternative-entry-point"); } if a.stmts != rf.stmts { return Differs(format!("collected {} but parse(&[u8]) gave {}", show(a), show(rf))); } }
+            else if a.err.is_none() { return if is_prefix(&rf.stmts, &a.stmts) { EarlierError("parse-on-a-slice") } else { Differs(format!("collected {} but parse(&[u8]) gave {}", show(a), show(rf))) }; }
+            else if !a.stmts.is_empty() { return Differs(format!("collected {} although the source failed", show(a))); }
+        }
+    }
+    Same
+}
+
+/// `\uXXXX` / `\UXXXXXXXX` escapes resolved (the numeric escapes of IRIREF)
+fn unescape_u(t: &str) -> String {
+    let cs: Vec<char> = t.chars().collect(); let mut o = String::new(); let mut i = 0;
+    while i < cs.len() {
+        if cs[i] == '\\' && i + 1 < cs.len() && (cs[i + 1] == 'u' || cs[i + 1] == 'U') { let n = if cs[i + 1] == 'u' { 4 } else { 8 };
+            if i + 2 + n <= cs.len() { let h: String = cs[i + 2..i + 2 + n].iter().collect(); if let Some(c) = u32::from_str_radix(&h, 16).ok().and_then(char::from_u32) { o.push(c); i += 2 + n; continue; } } }
+        o.push(cs[i]); i += 1;
+    }
+    o
+}
+/// The known class "generalized TriG without a base IRI copies IRIREF tokens without validating them": the parser is the
+/// generalized TriG parser, it has no base, the failure is about an IRI (`about_iri`), and that IRI comes from an IRIREF
+/// token of the input that is itself not a valid IRI reference: the token is the IRI, or its beginning (the namespace of a
+/// prefixed name), or it is the declared base.
+fn gtrig_no_base_iriref(f: Fmt, base: bool, e: Entry, about_iri: bool, raw: Option<&str>, input: &str) -> bool {
+    if f != Fmt::Gtrig || base || matches!(e, Entry::Opts(_)) || !about_iri { return false; }
+    let Some(raw) = raw else { return false; };
+    let mut toks: Vec<(String, bool)> = vec![]; // (token text, declared as base)
+    let b = input.as_bytes(); let mut i = 0;
+    while i < b.len() { if b[i] == b'<' { if let Some(len) = input[i + 1..].find('>') { let t = &input[i + 1..i + 1 + len];
+        let before = input[..i].trim_end(); let is_base = before.len() >= 4 && before.as_bytes()[before.len() - 4..].eq_ignore_ascii_case(b"base");
+        toks.push((t.to_string(), is_base)); let u = unescape_u(t); if u != t { toks.push((u, is_base)); } } } i += 1; }
+    toks.iter().any(|(t, is_base)| IriRef::new(t.as_str()).is_err() && (raw == t || (!t.is_empty() && raw.starts_with(t.as_str())) || *is_base))
+}
+
+/// The class "a prefixed name whose local part has a character of PN_CHARS (#x10000-#xEFFFF) that RFC 3987 ucschar excludes":
+/// Turtle-family parser, the failure is about an IRI, the offending IRI contains such a code point, is not an IRIREF token of
+/// the input, and is a valid IRI once those code points are replaced.
+fn outside_ucschar(c: char) -> bool { let c = c as u32; c >= 0x10000 && ((0xE0000..=0xE0FFF).contains(&c) || (c & 0xFFFE) == 0xFFFE) }
+fn pname_char_outside_ucschar(f: Fmt, e: Entry, about_iri: bool, raw: Option<&str>, input: &str) -> bool {
+    if !matches!(f, Fmt::Turtle | Fmt::Trig | Fmt::Gtrig) || matches!(e, Entry::Opts(_)) || !about_iri { return false; }
+    let Some(raw) = raw else { return false; };
+    if !raw.chars().any(outside_ucschar) || input.contains(&format!("<{raw}>")) { return false; }
+    let repaired: String = raw.chars().map(|c| if outside_ucschar(c) { 'x' } else { c }).collect();
+    IriRef::new(repaired.as_str()).is_ok()
+}
+
+struct RunCtx<'a> { sum: &'a mut Summary, profile: &'static str, verbose: bool, utf8_cases: Vec<(usize, String)>, utf8_budget: usize }
+fn run_recipe(id: usize, rc: &Recipe, cx: &mut RunCtx) {
+    let (data, what) = materialize(rc);
+    let (f, profile) = (rc.parser, cx.profile);
+    let shown = String::from_utf8_lossy(&data).to_string();
+    watch(id as u64);
+    let stream = if id >= 3_000_000 { "directed" } else { "polyglot" };
+    let what = format!("{}; {what}", if matches!(f, Fmt::Nt | Fmt::Nq | Fmt::Gnq) { "parser without base notion" } else if rc.base { "base IRI http://base.example/dir/doc" } else { "no base IRI" });
+    let tag = |e: Entry, about_iri: bool, raw: Option<&str>| if gtrig_no_base_iriref(f, rc.base, e, about_iri, raw, &shown) { "[gtrig-no-base-unvalidated-iriref] " } else if pname_char_outside_ucschar(f, e, about_iri, raw, &shown) { "[turtle-pname-char-outside-ucschar] " } else { "" };
+    let ref_raw: std::cell::RefCell<Option<String>> = Default::default(); // what the reference run (same bytes, same parser) saw
+    let panicked = |e: Entry, ename: String, msg: &str| -> String { let raw = RAW_INVALID_IRI.with(|x| x.borrow().clone()).or(ref_raw.borrow().clone());
+        format!("{}parser {f:?} PANICKED ({profile} build): {msg}; entry point {ename}; {what}; input {shown:?}", tag(e, msg.contains("rio/src/model.rs") && msg.contains("IriRef::new(n.iri)"), raw.as_deref())) };
+    let invalid = |e: Entry, ename: String, o: &Outcome| -> String { let b = &o.bad[0];
+        format!("{}parser {f:?} ({profile} build) yielded an invalid term: {b}; entry point {ename}; {what}; input {shown:?}", tag(e, b.starts_with("IRI \"") && (b.ends_with("is not a valid IRI reference") || b.ends_with("is not a valid absolute IRI")), o.raw_invalid_iri.clone().or(ref_raw.borrow().clone()).as_deref())) };
+    let reference = guarded(f, rc.base, &data, Entry::Slice, Consume::ForEach);
+    *ref_raw.borrow_mut() = RAW_INVALID_IRI.with(|x| x.borrow().clone());
+    cx.sum.evaluations += 1;
+    let mut fails: Vec<String> = vec![];
+    match &reference {
+        Err(msg) => { fails.push(panicked(Entry::Slice, "Slice/ForEach".to_string(), msg)); cx.sum.bump(&format!("{stream}:{f:?}:panic")); }
+        Ok(o) => {
+            if !o.bad.is_empty() { fails.push(invalid(Entry::Slice, "Slice/ForEach".to_string(), o)); }
+            cx.sum.bump(&format!("{stream}:{f:?}:{}", if o.n > 0 { "yielded" } else { "rejected-or-empty" }));
+            if o.n > 0 || rc.tort.is_some() || rc.wrap != 0 { cx.sum.distinct_nontrivial += 1; }
+            if f == Fmt::JsonLd { let valid = std::str::from_utf8(&data).is_ok(); if o.utf8_error == valid { fails.push(format!("parser JsonLd ({profile} build) parse(&[u8]) reports a UTF-8 error: {}, but the bytes are {} UTF-8; {what}; input bytes {data:02x?}", o.utf8_error, if valid { "well-formed" } else { "not well-formed" })); } }
+        }
+    }
+    if let Some(t) = &rc.tort { cx.sum.bump(&format!("inserted:{}:{}", MODE_NAMES[t.mode % 12], SCOPE_NAMES[t.scope % 4])); }
+    cx.sum.bump(&format!("wrapped:{}", WRAP_NAMES[rc.wrap % NWRAP]));
+    // the byte -> text layer, compared with the model inside Coq (dev run only; a bounded number of inputs of bounded size)
+    if cx.utf8_budget > 0 && data.len() <= 1500 && (rc.tort.is_some() || rc.doc > NGEN || matches!(rc.wrap % NWRAP, 22 | 23 | 27)) {
+        cx.utf8_budget -= 1;
+        let dec = std::str::from_utf8(&data).ok();
+        let jerr = if f == Fmt::JsonLd { reference.as_ref().ok().map(|o| o.utf8_error) } else { None };
+        cx.utf8_cases.push((id, format!("utf8_ok {} {} {} {}", coq_bytes(&data), coq_bool(dec.is_some()), dec.map(coq_str).unwrap_or("[]".into()), match jerr { None => "None".to_string(), Some(b) => format!("(Some {})", coq_bool(b)) })));
+    }
+    for (e, c) in rc.alts.iter() {
+        let alt = guarded(f, rc.base, &data, *e, *c);
+        cx.sum.evaluations += 1;
+        match alt {
+            Err(msg) => { fails.push(panicked(*e, format!("{e:?}/{c:?}"), &msg)); }
+            Ok(a) => {
+                if a.skipped { cx.sum.bump("entry:not-applicable"); continue; }
+                cx.sum.bump(&format!("entry:{}", format!("{e:?}").split(|ch: char| !ch.is_alphanumeric()).next().unwrap_or("")));
+                cx.sum.bump(&format!("consume:{}", format!("{c:?}").split('(').next().unwrap_or("")));
+                if a.io_failed { cx.sum.bump("entry:reader-failure-reached"); } if a.sink { cx.sum.bump("consume:sink-error-returned"); }
+                if let Some(v) = a.after_error { cx.sum.bump(&format!("after-error:{f:?}:{v}")); }
+                if !a.bad.is_empty() { fails.push(invalid(*e, format!("{e:?}/{c:?}"), &a)); }
+                if let Ok(rf) = &reference { if rf.bad.is_empty() && a.bad.is_empty() { match agreement(rf, &a, *e, *c) {
+                    Agreement::Same => {}
+                    Agreement::EarlierError(who) => { let bom = f == Fmt::Xml && data.starts_with(b"\xEF\xBB\xBF") && matches!(e, Entry::Buffered(1 | 2) | Entry::Feed { chunk: 1 | 2, .. } | Entry::Feed { cut: Some(1 | 2), .. });
+                        cx.sum.bump(&if bom { "entry-points-disagree:xml-bom-chunked".to_string() } else { format!("entry-points-disagree:{f:?}:earlier-error-from-{who}") }); }
+                    Agreement::Differs(d) => fails.push(format!("parser {f:?} ({profile} build) entry points disagree: {e:?}/{c:?} {d}; {what}; input {shown:?}")),
+                } } }
+            }
+        }
+    }
+    if cx.verbose { println!("CASE {id}: parser {f:?} on {what}; alternatives {:?}; input {shown:?}", rc.alts); match &reference { Ok(o) => println!("  parse(&[u8]): {} statements, error {:?}, complaints {:?}", o.n, o.err, o.bad), Err(m) => println!("  parse(&[u8]) PANICKED: {m}") } for x in &fails { println!("  FAIL {x}"); } }
+    if cx.sum.samples.len() < 8 && id % 1000 == 7 { if let Ok(o) = &reference { cx.sum.samples.push(format!("case {id}: {f:?} on {what}: {} statements, error {:?}", o.n, o.err)); } }
+    for x in fails { cx.sum.oracle_failures.push((id.to_string(), x)); }
+}
+
+/// class of a failure description: its text up to the first quoted value, plus the punctuation of that value
+/// (failures are kept round-robin over the classes, so that a frequent class cannot crowd out a rare one)
+fn class_key(d: &str) -> String {
+    let head: String = d.chars().take_while(|c| *c != '"').take(110).collect();
+    let quoted: String = d.chars().skip_while(|c| *c != '"').skip(1).take_while(|c| *c != '"').collect();
+    let mut sig: Vec<char> = quoted.chars().filter(|c| c.is_ascii_punctuation() || *c == ' ').collect(); sig.sort(); sig.dedup();
+    let nonascii = quoted.chars().any(|c| !c.is_ascii());
+    format!("{head}|{}{}", sig.into_iter().collect::<String>(), if nonascii { "+" } else { "" })
+}
+fn retain_diverse(fails: &mut Vec<(String, String)>, cap: usize) {
+    let mut exact = std::collections::HashSet::new();
+    fails.retain(|f| exact.insert(f.1.clone()));
+    let mut rank: std::collections::HashMap<String, usize> = Default::default();
+    let mut keyed: Vec<(usize, usize, (String, String))> = fails.drain(..).enumerate().map(|(i, f)| { let k = class_key(&f.1); let n = rank.entry(k).or_insert(0); *n += 1; (*n, i, f) }).collect();
+    keyed.sort_by_key(|x| (x.0, x.1));
+    keyed.truncate(cap);
+    keyed.sort_by_key(|x| x.1);
+    fails.extend(keyed.into_iter().map(|x| x.2));
+}
+
 fn main() {
     let a = parse_args();
     // subprocess mode: --deep <fmt index> <depth>  (a stack overflow aborts the whole process)
@@ -94,13 +1070,27 @@ fn main() {
         let h = std::thread::Builder::new().stack_size(2 << 20).spawn(move || { let r = catch_unwind(AssertUnwindSafe(|| run_parser(f, &doc))); match r { Ok((n, bad)) => { println!("deep ok statements={n} complaints={}", bad.len()); 0 } Err(_) => { println!("deep PANIC"); 3 } } }).unwrap();
         std::process::exit(h.join().unwrap_or(4));
     }
+    // replay mode: --input <format name> <file>  runs every entry point x every way of consuming on the bytes of the file
+    if a.rest.first().map(|s| s.as_str()) == Some("--input") {
+        std::panic::set_hook(Box::new(|info| { LAST_PANIC.with(|l| *l.borrow_mut() = format!("{info}").replace('\n', " ")); }));
+        if a.rest[1] == "corpus" { for f in FMTS { for k in 0..=NGEN { let d = corpus(f, k, &mut Rng::new(1)); for base in [true, false] { match guarded(f, base, &d, Entry::Slice, Consume::ForEach) { Ok(o) => println!("{f:?} #{k} base={base}: {} statement(s), error {:?}, complaints {:?}", o.n, o.err, o.bad.first()), Err(m) => println!("{f:?} #{k} base={base}: PANICKED {m}") } } if a.rest.len() > 2 { println!("{}", String::from_utf8_lossy(&d)); } } } return; }
+        let f = *FMTS.iter().find(|f| format!("{f:?}").eq_ignore_ascii_case(&a.rest[1])).expect("format: Nt Nq Turtle Trig Gnq Gtrig Xml JsonLd");
+        let data = std::fs::read(&a.rest[2]).unwrap();
+        for base in [true, false] { for e in [Entry::Slice, Entry::Str, Entry::ModStr, Entry::Buffered(1), Entry::Cursor, Entry::Feed { chunk: 1, cut: None }, Entry::FailAt(data.len() / 2), Entry::Async] { for c in [Consume::ForEach, Consume::Owned, Consume::Steps, Consume::SinkFail(0), Consume::Collect] {
+            if base && e.uses_default_parser() { continue; }
+            match guarded(f, base, &data, e, c) { Ok(o) if o.skipped => {} Ok(o) => println!("{f:?} base={base} {e:?}/{c:?}: {} statement(s), error {:?}, sink error {}, reader failed {}, after the error {:?}, complaints {:?}{}", o.n, o.err, o.sink, o.io_failed, o.after_error, o.bad, if c == Consume::ForEach && e == Entry::Slice { format!("\n    {}", o.stmts.join("\n    ")) } else { String::new() }), Err(m) => println!("{f:?} base={base} {e:?}/{c:?}: PANICKED {m}") }
+        } } }
+        return;
+    }
     let mut sum = Summary::default();
     sum.rule = "case = (parser, input) where input is a valid seed document, one of its single-edit mutants (deletion, truncation, byte flip, insertion of a byte), a splice of a format-specific dictionary token (delimiters, escapes, unusual IRIs incl. IPv6 hosts, bad labels/tags, XML/JSON constructs), or invalid UTF-8; plus a directed stream of short inputs (the empty input, every 1-byte input, 2-byte inputs over 28 interesting bytes -- all 65 536 in the thorough tier --, prefixes and repetitions of the UTF-8 byte-order mark, BOM-prefixed valid documents and their truncations) through every parser; plus deep nesting (collections, property lists, quoted triples, XML elements, JSON arrays) in a subprocess on a 2 MiB thread; \
+plus (round 4) a polyglot stream and a directed stream: a document (seed, generated from the grammar with non-ASCII characters inside IRIs / labels / tags / names / literals, token soup, random bytes) of any format, wrapped in another syntax (32 wrappers: HTML script data blocks, XML/CDATA envelopes, JSON strings, JSONP, Markdown, HTTP/MIME messages, comments, literals of the other RDF syntaxes, UTF-16, other line ends, BOMs ...), with characters whose case mappings change their length, combining marks, astral and special code points, look-alikes and ill-formed UTF-8 inserted before / inside / after tokens (once, at several places, or saturating the prefix / the payload / the suffix / everything), given to the parser of the embedded format and to the other parsers, through every public entry point (parse on a slice / BufReader of several capacities / Cursor / a reader handing out 1..n bytes at a time or failing after k bytes, parse_str, the module-level functions, Default, JSON-LD async_parse_str and option presets) and every way of consuming the source (for_each, consuming accessors, one for_some call at a time continuing after an error, a failing sink, collect); each run is checked by the property oracle and every entry point must agree with parse(&[u8]); \
 non-trivial = the parser yielded at least one statement from a mutated input (so term validity is actually exercised) or rejected a mutant of a valid document; distinct = distinct (parser, input bytes)".into();
     std::panic::set_hook(Box::new(|info| { LAST_PANIC.with(|l| *l.borrow_mut() = format!("{info}").replace('\n', " ")); }));
     let base = Rng::new(a.seed);
     let mut seen = std::collections::HashSet::new();
-    let range: Vec<usize> = match a.only { Some(i) => vec![i], None => (0..a.n).collect() };
+    let range: Vec<usize> = match a.only { Some(i) if i >= 1_000_000 => vec![], Some(i) => vec![i], None => (0..a.n).collect() };
+    if a.only.is_none() { start_watchdog(a.out.clone(), 600); }
     let profile = if cfg!(debug_assertions) { "dev" } else { "release" };
     for idx in range {
         let mut r = base.fork(idx as u64);
@@ -167,6 +1157,24 @@ non-trivial = the parser yielded at least one statement from a mutated input (so
             }
         }
     }
+    // ---------- round 4: polyglot / wrapped inputs, Unicode at every position class, every entry point ----------
+    let thorough = a.n >= 20000;
+    let mut utf8_cases: Vec<(usize, String)> = vec![];
+    {
+        let mut cx = RunCtx { sum: &mut sum, profile, verbose: a.only.is_some(), utf8_cases: vec![], utf8_budget: if profile == "dev" { if thorough { 6000 } else { 1200 } } else { 0 } };
+        let directed = directed_recipes(thorough);
+        let npoly = if thorough { (a.n / 4).min(150_000) } else { a.n / 2 };
+        match a.only {
+            Some(i) if i >= 3_000_000 => { if let Some(rc) = directed.get(i - 3_000_000) { run_recipe(i, rc, &mut cx); } }
+            Some(i) if i >= 2_000_000 => { run_recipe(i, &random_recipe(&base, i - 2_000_000), &mut cx); }
+            Some(_) => {}
+            None => {
+                for k in 0..npoly { run_recipe(2_000_000 + k, &random_recipe(&base, k), &mut cx); }
+                for (j, rc) in directed.iter().enumerate() { run_recipe(3_000_000 + j, rc, &mut cx); }
+            }
+        }
+        utf8_cases = std::mem::take(&mut cx.utf8_cases);
+    }
     // ---------- validators vs the regenerated regexes (evaluated inside Coq) ----------
     // strings over the boundary code points of every class (each range end and its neighbours)
     let mut cases: Vec<(usize, String)> = vec![];
@@ -186,21 +1194,36 @@ non-trivial = the parser yielded at least one statement from a mutated input (so
             sum.bump(&format!("validators:{}{}{}", b as u8, v as u8, t as u8));
             sum.evaluations += 1;
         }
+        // the same on strings over the round-4 alphabets (characters whose case mappings change length, combining marks,
+        // astral and special code points, look-alikes of delimiters) and on every label / tag / name of the document generator
+        let mut alpha: Vec<char> = vec![]; alpha.extend(CASE_LEN); alpha.extend(COMBINING); alpha.extend(ASTRAL); alpha.extend(SPECIALS); alpha.extend(LOOKALIKE);
+        let mut strings: Vec<String> = vec![];
+        for p in [&Pools::LABELS[..], &Pools::BAD_LABELS[..], &Pools::TAGS[..], &Pools::BAD_TAGS[..], &Pools::VARS[..], &Pools::NCNAMES[..], &Pools::PREFIXES[..]] { strings.extend(p.iter().map(|x| x.to_string())); }
+        for k in 0..nval / 2 { let mut r = base.fork(1_500_000 + k as u64); let mut st = String::new(); for _ in 0..1 + r.below(5) { st.push(if r.chance(1, 2) { *r.pick(&alpha) } else { *r.pick(&['a', '.', '-', '9', '_', 'B', 'e', 'n', 'x']) }); } strings.push(st); }
+        for (k, st) in strings.iter().enumerate() {
+            watch(1_500_000 + k as u64);
+            let (b, v, t) = (BnodeId::new(st.as_str()).is_ok(), VarName::new(st.as_str()).is_ok(), LanguageTag::new(st.as_str()).is_ok());
+            cases.push((1_500_000 + k, format!("val3_ok {} {} {} {}", coq_str(st), coq_bool(b), coq_bool(v), coq_bool(t))));
+            sum.bump(&format!("validators-unicode:{}{}{}", b as u8, v as u8, t as u8));
+            sum.evaluations += 1;
+        }
+        cases.extend(utf8_cases.drain(..));
     }
     // deep nesting, each in a subprocess
     if a.only.is_none() {
         let exe = std::env::current_exe().unwrap();
         let depths: &[usize] = if a.n >= 20000 { &[1000, 10_000, 100_000, 100_001, 100_002] } else { &[1000, 20_000, 20_001, 20_002] };
         for (fi, f) in FMTS.iter().enumerate() { for d in depths {
+            watch(9_000_000 + (fi * 100) as u64 + *d as u64 % 100);
             let out = std::process::Command::new(&exe).args(["--deep", &fi.to_string(), &d.to_string()]).output().unwrap();
             sum.evaluations += 1; sum.bump(&format!("deep:{f:?}"));
             if !out.status.success() { sum.oracle_failures.push((format!("deep-{f:?}-{d}"), format!("parser {f:?} ({profile} build) did not survive nesting depth {d} on a 2 MiB stack: exit status {:?} ({})", out.status.code(), String::from_utf8_lossy(&out.stdout).trim()))); }
             else { sum.distinct_nontrivial += 1; }
         } }
         // de-duplicate failures by their first 120 characters of description so that the report stays readable
-        let mut uniq = std::collections::HashSet::new();
-        sum.oracle_failures.retain(|f| uniq.insert(f.1.chars().take(100).collect::<String>()));
-        sum.oracle_failures.truncate(60);
+        // (round 4: exact duplicates are dropped and the rest is kept round-robin over the failure classes, so that a
+        // frequent class cannot crowd out a rare one)
+        retain_diverse(&mut sum.oracle_failures, 400);
         std::fs::create_dir_all(&a.out).unwrap();
         if !cases.is_empty() { sum.shards = write_shards(&a.out, "From Sophia.C08 Require Import Model.", &cases, a.shards); sum.extra.push(("coq_cases".into(), cases.len().to_string())); }
         std::fs::write(format!("{}/summary.json", a.out), sum.to_json()).unwrap();
